@@ -1,11 +1,14 @@
-(* ScanProofs.v — wn.lmf.scan_lexicons (Model/Scan.v) agrees with what the writer
-   (Model/Lmf.v: dump / _dump_lexicon) puts into a file.
+(* ScanProofs.v — wn.lmf.scan_lexicons (Model/Scan.v, the source tree after the two
+   repairs: whole-attribute matching, comments and CDATA sections skipped) agrees with
+   what the writer (Model/Lmf.v: dump / _dump_lexicon) puts into a file.
      S1  _unescape_attribute inverts quoteattr and _escape_attrib
      S2  the start tag of a lexicon as _dump_lexicon writes it is matched by the lex
-         scanner and the attribute scanner returns id / version / label
-     S3  whole documents
+         scanner, the attribute scanner tokenises it into exactly the written
+         attributes and returns id / version / label — no hypothesis on the values
+     S3  whole documents (scan_dump); the dumped text has no comment / CDATA section
      S4  tags without id / version, and a leading <Extends>
-   See the summary at the end of the file for the statements found false. *)
+     S5  a comment or a CDATA section contributes nothing
+   See the summary at the end of the file. *)
 From Coq Require Import String.
 From Coq Require Import ZArith List Bool Lia.
 Import ListNotations.
@@ -559,47 +562,92 @@ Proof.
   rewrite !app_length. simpl. lia.
 Qed.
 
+(* ---------- comments and CDATA sections ---------- *)
+Lemma find_after_shorter : forall pat s rest, pat <> [] ->
+  find_after pat s = Some rest -> (length rest < length s)%nat.
+Proof.
+  intros pat s. induction s as [|c r IH]; intros rest Hp H.
+  - destruct pat as [|x p]; [contradiction | discriminate].
+  - cbn [find_after] in H. destruct (prefixb pat (c :: r)) eqn:E.
+    + injection H as <-. rewrite skipn_length. destruct pat as [|x p]; [contradiction|]. simpl. lia.
+    + apply IH in H; [simpl; lia | exact Hp].
+Qed.
+Lemma section_at_shorter : forall opening closing r rest, closing <> [] ->
+  section_at opening closing r = Some rest -> (length rest <= length r)%nat.
+Proof.
+  intros opening closing r rest Hc H. unfold section_at in H.
+  destruct (prefixb opening r); [|discriminate].
+  apply find_after_shorter in H; [|exact Hc]. rewrite skipn_length in H. lia.
+Qed.
+Lemma skip_at_shorter : forall r rest, skip_at r = Some rest -> (length rest <= length r)%nat.
+Proof.
+  intros r rest H. unfold skip_at in H.
+  destruct (section_at (s_ "!--") (s_ "-->") r) as [x|] eqn:E.
+  - injection H as <-. apply (section_at_shorter (s_ "!--") (s_ "-->") r x); [discriminate | exact E].
+  - apply (section_at_shorter (s_ "![CDATA[") (s_ "]]>") r rest); [discriminate | exact H].
+Qed.
+(* they start with an exclamation mark *)
+Lemma skip_at_first : forall c r, Z.eqb c 33 = false -> skip_at (c :: r) = None.
+Proof.
+  intros c r H. unfold skip_at, section_at.
+  change (s_ "!--") with (33 :: [45; 45]). change (s_ "![CDATA[") with (33 :: [91; 67; 68; 65; 84; 65; 91]).
+  cbn [prefixb]. rewrite (Z.eqb_sym 33 c). rewrite H. reflexivity.
+Qed.
+
+Lemma lex_all_S : forall f c r,
+  lex_all (S f) (c :: r) =
+  if Z.eqb c c_lt then
+    match skip_at r with
+    | Some rest => lex_all f rest
+    | None =>
+        match lex_at r with
+        | Some (t, rem, rest) => (t, rem) :: lex_all f rest
+        | None => lex_all f r
+        end
+    end
+  else lex_all f r.
+Proof. reflexivity. Qed.
+
 Lemma lex_all_fuel2 : forall f1 f2 s,
   (length s < f1)%nat -> (length s < f2)%nat -> lex_all f1 s = lex_all f2 s.
 Proof.
   induction f1 as [|f1 IH]; intros f2 s H1 H2; [lia|].
   destruct f2 as [|f2]; [lia|].
   destruct s as [|c r]; [reflexivity|].
-  simpl in H1, H2. simpl.
+  rewrite !lex_all_S. simpl in H1, H2.
   destruct (Z.eqb c c_lt).
-  - destruct (lex_at r) as [[[t rem] rest]|] eqn:E.
-    + apply lex_at_shorter in E. rewrite (IH f2 rest) by lia. reflexivity.
-    + apply IH; lia.
+  - destruct (skip_at r) as [rest|] eqn:Es.
+    + apply skip_at_shorter in Es. apply IH; lia.
+    + destruct (lex_at r) as [[[t rem] rest]|] eqn:E.
+      * apply lex_at_shorter in E. rewrite (IH f2 rest) by lia. reflexivity.
+      * apply IH; lia.
   - apply IH; lia.
 Qed.
-
-Lemma lex_all_S : forall f c r,
-  lex_all (S f) (c :: r) =
-  if Z.eqb c c_lt then
-    match lex_at r with
-    | Some (t, rem, rest) => (t, rem) :: lex_all f rest
-    | None => lex_all f r
-    end
-  else lex_all f r.
-Proof. reflexivity. Qed.
 
 Lemma lex_matches_nil : lex_matches [] = [].
 Proof. reflexivity. Qed.
 Lemma lex_matches_cons : forall c r,
   lex_matches (c :: r) =
   if Z.eqb c c_lt then
-    match lex_at r with
-    | Some (t, rem, rest) => (t, rem) :: lex_matches rest
-    | None => lex_matches r
+    match skip_at r with
+    | Some rest => lex_matches rest
+    | None =>
+        match lex_at r with
+        | Some (t, rem, rest) => (t, rem) :: lex_matches rest
+        | None => lex_matches r
+        end
     end
   else lex_matches r.
 Proof.
   intros c r. unfold lex_matches at 1. change (length (c :: r)) with (S (length r)).
   rewrite lex_all_S. destruct (Z.eqb c c_lt).
-  - destruct (lex_at r) as [[[t rem] rest]|] eqn:E.
-    + apply lex_at_shorter in E. unfold lex_matches.
-      rewrite (lex_all_fuel2 (S (length r)) (S (length rest)) rest) by lia. reflexivity.
-    + reflexivity.
+  - destruct (skip_at r) as [rest|] eqn:Es.
+    + apply skip_at_shorter in Es. unfold lex_matches.
+      apply lex_all_fuel2; lia.
+    + destruct (lex_at r) as [[[t rem] rest]|] eqn:E.
+      * apply lex_at_shorter in E. unfold lex_matches.
+        rewrite (lex_all_fuel2 (S (length r)) (S (length rest)) rest) by lia. reflexivity.
+      * reflexivity.
   - reflexivity.
 Qed.
 
@@ -623,18 +671,128 @@ Proof.
   destruct (Z.eqb x y); simpl in *; [apply IH; exact H | reflexivity].
 Qed.
 
-(* what follows a "less than" sign cannot be one of the three names *)
-Definition not_lex_name (b : str) : bool :=
-  diverges (s_ "Lexicon") b && diverges (s_ "Extends") b.
-Fixpoint lt_free (s : str) : bool :=
+
+(* every "less than" sign of [s] is followed by something that satisfies [P] *)
+Fixpoint lt_free_gen (P : str -> bool) (s : str) : bool :=
   match s with
   | [] => true
-  | c :: r => (negb (Z.eqb c c_lt) || not_lex_name r) && lt_free r
+  | c :: r => (negb (Z.eqb c c_lt) || P r) && lt_free_gen P r
   end.
+Definition mono (P : str -> bool) : Prop := forall b s, P b = true -> P (b ++ s) = true.
 
-Lemma not_lex_name_lex_at : forall b s, not_lex_name b = true -> lex_at (b ++ s) = None.
+Lemma lt_free_gen_app : forall P a b, mono P ->
+  lt_free_gen P a = true -> lt_free_gen P b = true -> lt_free_gen P (a ++ b) = true.
 Proof.
-  intros b s H. unfold not_lex_name in H. apply andb_true_iff in H. destruct H as [H1 H2].
+  intros P a b HP. induction a as [|c a IH]; intros Ha Hb; simpl.
+  - exact Hb.
+  - simpl in Ha. apply andb_true_iff in Ha. destruct Ha as [H1 H2].
+    rewrite (IH H2 Hb). rewrite andb_true_r.
+    apply orb_true_iff in H1. destruct H1 as [H1|H1].
+    + rewrite H1. reflexivity.
+    + rewrite (HP a b H1). apply orb_true_r.
+Qed.
+Lemma lt_free_gen_no_lt : forall P s, zin c_lt s = false -> lt_free_gen P s = true.
+Proof.
+  intros P. induction s as [|c s IH]; intro H; simpl.
+  - reflexivity.
+  - rewrite zin_cons in H. apply orb_false_iff in H. destruct H as [H1 H2].
+    rewrite Z.eqb_sym in H1. rewrite H1. simpl. apply IH. exact H2.
+Qed.
+Lemma lt_free_gen_impl : forall (P Q : str -> bool) s, (forall b, P b = true -> Q b = true) ->
+  lt_free_gen P s = true -> lt_free_gen Q s = true.
+Proof.
+  intros P Q s HPQ. induction s as [|c s IH]; intro H; simpl.
+  - reflexivity.
+  - simpl in H. apply andb_true_iff in H. destruct H as [H1 H2].
+    rewrite (IH H2). rewrite andb_true_r.
+    apply orb_true_iff in H1. destruct H1 as [H1|H1].
+    + rewrite H1. reflexivity.
+    + rewrite (HPQ _ H1). apply orb_true_r.
+Qed.
+Lemma lt_free_gen_concat : forall P ys, mono P ->
+  forallb (lt_free_gen P) ys = true -> lt_free_gen P (concat ys) = true.
+Proof.
+  intros P ys HP. induction ys as [|y r IH]; intro H.
+  - reflexivity.
+  - simpl in H. apply andb_true_iff in H. destruct H as [H1 H2].
+    simpl. apply lt_free_gen_app; [exact HP | exact H1 | apply IH; exact H2].
+Qed.
+(* what it means: at every "less than" sign *)
+Lemma lt_free_gen_at : forall P a b, lt_free_gen P (a ++ c_lt :: b) = true -> P b = true.
+Proof.
+  intros P. induction a as [|c a IH]; intros b H.
+  - simpl in H. apply andb_true_iff in H. destruct H as [H _]. exact H.
+  - simpl in H. apply andb_true_iff in H. destruct H as [_ H]. apply IH. exact H.
+Qed.
+
+(* not an exclamation mark (and not the end of the text) *)
+Definition nobang (b : str) : bool := match b with c :: _ => negb (Z.eqb c 33) | [] => false end.
+(* STRICT: what follows is neither one of the three names nor a "!" — true of
+   everything the serializer writes *)
+Definition not_lex_name (b : str) : bool :=
+  diverges (s_ "Lexicon") b && diverges (s_ "Extends") b && nobang b.
+(* WEAK: neither one of the three names nor the opening of a comment / CDATA section —
+   also true of the DOCTYPE declaration *)
+Definition not_section (b : str) : bool := diverges (s_ "!--") b && diverges (s_ "![CDATA[") b.
+Definition not_lex_namew (b : str) : bool :=
+  diverges (s_ "Lexicon") b && diverges (s_ "Extends") b && not_section b.
+Notation lt_free := (lt_free_gen not_lex_name).
+Notation lt_freew := (lt_free_gen not_lex_namew).
+Notation bang_free := (lt_free_gen nobang).
+Notation section_free := (lt_free_gen not_section).
+
+Lemma nobang_mono : mono nobang.
+Proof. intros b s H. destruct b; [discriminate | exact H]. Qed.
+Lemma not_lex_name_mono : mono not_lex_name.
+Proof.
+  intros b s H. unfold not_lex_name in *.
+  apply andb_true_iff in H. destruct H as [H H3]. apply andb_true_iff in H. destruct H as [H1 H2].
+  rewrite (diverges_app _ _ s H1). rewrite (diverges_app _ _ s H2). rewrite (nobang_mono b s H3).
+  reflexivity.
+Qed.
+Lemma not_section_mono : mono not_section.
+Proof.
+  intros b s H. unfold not_section in *. apply andb_true_iff in H. destruct H as [H1 H2].
+  rewrite (diverges_app _ _ s H1). rewrite (diverges_app _ _ s H2). reflexivity.
+Qed.
+Lemma not_lex_namew_mono : mono not_lex_namew.
+Proof.
+  intros b s H. unfold not_lex_namew in *.
+  apply andb_true_iff in H. destruct H as [H H3]. apply andb_true_iff in H. destruct H as [H1 H2].
+  rewrite (diverges_app _ _ s H1). rewrite (diverges_app _ _ s H2). rewrite (not_section_mono b s H3).
+  reflexivity.
+Qed.
+Lemma nobang_not_section : forall b, nobang b = true -> not_section b = true.
+Proof.
+  intros [|c b] H; [discriminate|]. simpl in H. apply negb_true_iff in H.
+  unfold not_section. change (s_ "!--") with (33 :: [45; 45]).
+  change (s_ "![CDATA[") with (33 :: [91; 67; 68; 65; 84; 65; 91]).
+  cbn [diverges]. rewrite (Z.eqb_sym 33 c). rewrite H. reflexivity.
+Qed.
+Lemma not_lex_name_weak : forall b, not_lex_name b = true -> not_lex_namew b = true.
+Proof.
+  intros b H. unfold not_lex_name, not_lex_namew in *.
+  apply andb_true_iff in H. destruct H as [H H3]. rewrite H. rewrite (nobang_not_section b H3).
+  reflexivity.
+Qed.
+Lemma not_lex_name_nobang : forall b, not_lex_name b = true -> nobang b = true.
+Proof. intros b H. unfold not_lex_name in H. apply andb_true_iff in H. destruct H as [_ H]. exact H. Qed.
+Lemma not_lex_namew_not_section : forall b, not_lex_namew b = true -> not_section b = true.
+Proof. intros b H. unfold not_lex_namew in H. apply andb_true_iff in H. destruct H as [_ H]. exact H. Qed.
+
+Lemma lt_free_weak : forall s, lt_free s = true -> lt_freew s = true.
+Proof. intro s. apply lt_free_gen_impl. apply not_lex_name_weak. Qed.
+Lemma lt_free_bang_free : forall s, lt_free s = true -> bang_free s = true.
+Proof. intro s. apply lt_free_gen_impl. apply not_lex_name_nobang. Qed.
+Lemma lt_free_app : forall a b, lt_free a = true -> lt_free b = true -> lt_free (a ++ b) = true.
+Proof. intros a b. apply lt_free_gen_app. apply not_lex_name_mono. Qed.
+Lemma no_lt_lt_free : forall s, zin c_lt s = false -> lt_free s = true.
+Proof. intro s. apply lt_free_gen_no_lt. Qed.
+
+Lemma not_lex_namew_lex_at : forall b s, not_lex_namew b = true -> lex_at (b ++ s) = None.
+Proof.
+  intros b s H. unfold not_lex_namew in H.
+  apply andb_true_iff in H. destruct H as [H _]. apply andb_true_iff in H. destruct H as [H1 H2].
   unfold lex_at, try_name.
   change (lextype_name TLexicon) with (s_ "Lexicon").
   change (lextype_name TLexiconExtension) with (s_ "Lexicon" ++ s_ "Extension").
@@ -647,42 +805,36 @@ Proof.
     rewrite prefixb_app_self in Hd. discriminate. }
   rewrite Hp. reflexivity.
 Qed.
-
-Lemma lt_free_app : forall a b, lt_free a = true -> lt_free b = true -> lt_free (a ++ b) = true.
+Lemma not_section_skip_at : forall b s, not_section b = true -> skip_at (b ++ s) = None.
 Proof.
-  induction a as [|c a IH]; intros b Ha Hb; simpl.
-  - exact Hb.
-  - simpl in Ha. apply andb_true_iff in Ha. destruct Ha as [H1 H2].
-    rewrite (IH b H2 Hb). rewrite andb_true_r.
-    apply orb_true_iff in H1. destruct H1 as [H1|H1].
-    + rewrite H1. reflexivity.
-    + apply orb_true_iff. right. unfold not_lex_name in *.
-      apply andb_true_iff in H1. destruct H1 as [Hx Hy].
-      rewrite (diverges_app _ _ b Hx). rewrite (diverges_app _ _ b Hy). reflexivity.
-Qed.
-
-Lemma no_lt_lt_free : forall s, zin c_lt s = false -> lt_free s = true.
-Proof.
-  induction s as [|c s IH]; intro H; simpl.
-  - reflexivity.
-  - rewrite zin_cons in H. apply orb_false_iff in H. destruct H as [H1 H2].
-    rewrite Z.eqb_sym in H1. rewrite H1. simpl. apply IH. exact H2.
+  intros b s H. unfold not_section in H. apply andb_true_iff in H. destruct H as [H1 H2].
+  unfold skip_at, section_at.
+  rewrite (diverges_prefixb _ _ s H1). rewrite (diverges_prefixb _ _ s H2). reflexivity.
 Qed.
 
 (* the scanner passes over such a text *)
-Lemma lex_matches_skip : forall pre s, lt_free pre = true -> lex_matches (pre ++ s) = lex_matches s.
+Lemma lex_matches_skip : forall pre s, lt_freew pre = true -> lex_matches (pre ++ s) = lex_matches s.
 Proof.
   induction pre as [|c pre IH]; intros s H.
   - reflexivity.
   - simpl in H. apply andb_true_iff in H. destruct H as [H1 H2].
     rewrite <- app_comm_cons. rewrite lex_matches_cons.
     destruct (Z.eqb_spec c c_lt) as [E|E].
-    + simpl in H1. rewrite (not_lex_name_lex_at _ s H1). apply IH. exact H2.
+    + simpl in H1.
+      rewrite (not_section_skip_at _ s (not_lex_namew_not_section _ H1)).
+      rewrite (not_lex_namew_lex_at _ s H1). apply IH. exact H2.
     + apply IH. exact H2.
 Qed.
-Lemma lex_matches_lt_free : forall s, lt_free s = true -> lex_matches s = [].
+Lemma lex_matches_lt_free : forall s, lt_freew s = true -> lex_matches s = [].
 Proof.
   intros s H. rewrite <- (app_nil_r s). rewrite lex_matches_skip by exact H. reflexivity.
+Qed.
+(* on such a text the comment / CDATA alternatives never fire *)
+Lemma section_free_never_skips : forall s a b, section_free s = true -> s = a ++ c_lt :: b ->
+  skip_at b = None.
+Proof.
+  intros s a b H E. subst s. apply lt_free_gen_at in H.
+  rewrite <- (app_nil_r b). apply not_section_skip_at. exact H.
 Qed.
 
 (* ---------- the remainder group over well-quoted text ---------- *)
@@ -726,6 +878,7 @@ Proof.
   rewrite (rem_aux_in_quote q inner s Hz). destruct (rem_aux None s) as [[x y]|]; reflexivity.
 Qed.
 
+
 (* ====================================================================== *)
 (* The attribute scanner                                                  *)
 (* ====================================================================== *)
@@ -766,103 +919,83 @@ Proof.
   destruct (is_quote q); [|discriminate].
   apply upto_quote_app in H. subst r2. simpl in L1, L2. rewrite app_length in L2. simpl in L2. lia.
 Qed.
-Lemma try_attr_shorter : forall n0 s n v rest,
-  try_attr n0 s = Some (n, v, rest) -> (length rest < length s)%nat.
+Lemma attr_at_split : forall s nm v rest, attr_at s = Some (nm, v, rest) ->
+  exists r, s = nm ++ r /\ nm <> [] /\ attr_tail r = Some (v, rest).
 Proof.
-  intros n0 s n v rest H. unfold try_attr in H.
-  destruct (prefixb (attrname_str n0) s); [|discriminate].
-  destruct (attr_tail (skipn (length (attrname_str n0)) s)) as [[v' rest']|] eqn:E; [|discriminate].
-  injection H as <- <- <-. apply attr_tail_shorter in E. rewrite skipn_length in E. lia.
+  intros s nm v rest H. unfold attr_at in H.
+  destruct (span is_namebyte s) as [a b] eqn:E. apply span_app in E.
+  destruct a as [|x a]; [discriminate|].
+  destruct (attr_tail b) as [[v' rest']|] eqn:Et; [|discriminate].
+  injection H as <- <- <-. exists b. repeat split; [exact E | discriminate | exact Et].
 Qed.
-Lemma attr_at_shorter : forall s n v rest,
-  attr_at s = Some (n, v, rest) -> (length rest < length s)%nat.
+Lemma attr_at_shorter : forall s nm v rest,
+  attr_at s = Some (nm, v, rest) -> (length rest < length s)%nat.
 Proof.
-  intros s n v rest H. unfold attr_at in H.
-  destruct (try_attr NId s) as [m|] eqn:E1.
-  - injection H as ->. apply try_attr_shorter in E1. exact E1.
-  - destruct (try_attr NVersion s) as [m|] eqn:E2.
-    + injection H as ->. apply try_attr_shorter in E2. exact E2.
-    + apply try_attr_shorter in H. exact H.
+  intros s nm v rest H. apply attr_at_split in H. destruct H as [r [Hs [_ Ht]]].
+  apply attr_tail_shorter in Ht. subst s. rewrite app_length. lia.
 Qed.
 
-Lemma attr_all_S : forall f pw c r,
-  attr_all (S f) pw (c :: r) =
-  match (if pw then None else attr_at (c :: r)) with
-  | Some (n, v, rest) => (n, v) :: attr_all f false rest
-  | None => attr_all f (is_word c) r
+Lemma attr_all_S : forall f c r,
+  attr_all (S f) (c :: r) =
+  match attr_at (c :: r) with
+  | Some (nm, v, rest) => (nm, v) :: attr_all f rest
+  | None => attr_all f r
   end.
 Proof. reflexivity. Qed.
 
-Lemma attr_all_fuel2 : forall f1 f2 pw s,
-  (length s < f1)%nat -> (length s < f2)%nat -> attr_all f1 pw s = attr_all f2 pw s.
+Lemma attr_all_fuel2 : forall f1 f2 s,
+  (length s < f1)%nat -> (length s < f2)%nat -> attr_all f1 s = attr_all f2 s.
 Proof.
-  induction f1 as [|f1 IH]; intros f2 pw s H1 H2; [lia|].
+  induction f1 as [|f1 IH]; intros f2 s H1 H2; [lia|].
   destruct f2 as [|f2]; [lia|].
   destruct s as [|c r]; [reflexivity|].
   rewrite !attr_all_S. simpl in H1, H2.
-  destruct (if pw then None else attr_at (c :: r)) as [[[n v] rest]|] eqn:E.
-  - destruct pw; [discriminate|]. apply attr_at_shorter in E. simpl in E.
-    rewrite (IH f2 false rest) by lia. reflexivity.
+  destruct (attr_at (c :: r)) as [[[nm v] rest]|] eqn:E.
+  - apply attr_at_shorter in E. simpl in E. rewrite (IH f2 rest) by lia. reflexivity.
   - apply IH; lia.
 Qed.
 
-Definition attr_scan (pw : bool) (s : str) : list (attrname * str) := attr_all (S (length s)) pw s.
-Lemma attr_matches_eq : forall s, attr_matches s = attr_scan false s.
+Lemma attr_tokens_nil : attr_tokens [] = [].
 Proof. reflexivity. Qed.
-Lemma attr_scan_nil : forall pw, attr_scan pw [] = [].
-Proof. reflexivity. Qed.
-Lemma attr_scan_cons : forall pw c r,
-  attr_scan pw (c :: r) =
-  match (if pw then None else attr_at (c :: r)) with
-  | Some (n, v, rest) => (n, v) :: attr_scan false rest
-  | None => attr_scan (is_word c) r
+Lemma attr_tokens_cons : forall c r,
+  attr_tokens (c :: r) =
+  match attr_at (c :: r) with
+  | Some (nm, v, rest) => (nm, v) :: attr_tokens rest
+  | None => attr_tokens r
   end.
 Proof.
-  intros pw c r. unfold attr_scan at 1. change (length (c :: r)) with (S (length r)).
+  intros c r. unfold attr_tokens at 1. change (length (c :: r)) with (S (length r)).
   rewrite attr_all_S.
-  destruct (if pw then None else attr_at (c :: r)) as [[[n v] rest]|] eqn:E.
-  - destruct pw; [discriminate|]. apply attr_at_shorter in E. simpl in E.
-    unfold attr_scan. rewrite (attr_all_fuel2 (S (length r)) (S (length rest)) false rest) by lia.
+  destruct (attr_at (c :: r)) as [[[nm v] rest]|] eqn:E.
+  - apply attr_at_shorter in E. simpl in E.
+    unfold attr_tokens. rewrite (attr_all_fuel2 (S (length r)) (S (length rest)) rest) by lia.
     reflexivity.
   - reflexivity.
 Qed.
-
-(* ---------- characters at which no match can start ---------- *)
-Definition starts_name (c : Z) : bool := Z.eqb c 105 || Z.eqb c 118 || Z.eqb c 108.
-Lemma prefixb_cons_neq : forall x p c r, Z.eqb c x = false -> prefixb (x :: p) (c :: r) = false.
-Proof. intros x p c r H. cbn [prefixb]. rewrite Z.eqb_sym. rewrite H. reflexivity. Qed.
-Lemma attr_at_first : forall c r, starts_name c = false -> attr_at (c :: r) = None.
+Lemma attr_tokens_at : forall s nm v rest, attr_at s = Some (nm, v, rest) ->
+  attr_tokens s = (nm, v) :: attr_tokens rest.
 Proof.
-  intros c r H. unfold starts_name in H.
-  apply orb_false_iff in H. destruct H as [H H3]. apply orb_false_iff in H. destruct H as [H1 H2].
-  unfold attr_at, try_attr.
-  change (attrname_str NId) with (105 :: [100]).
-  change (attrname_str NVersion) with (118 :: [101; 114; 115; 105; 111; 110]).
-  change (attrname_str NLabel) with (108 :: [97; 98; 101; 108]).
-  rewrite (prefixb_cons_neq 105 _ c r H1). rewrite (prefixb_cons_neq 118 _ c r H2).
-  rewrite (prefixb_cons_neq 108 _ c r H3). reflexivity.
+  intros s nm v rest H. destruct s as [|c r]; [discriminate|].
+  rewrite attr_tokens_cons. rewrite H. reflexivity.
 Qed.
 
-(* neither the start of a name nor a word character: separators, "/" ... *)
-Definition dead (c : Z) : bool := negb (starts_name c) && negb (is_word c).
-Lemma attr_skip_dead : forall sep pw s, forallb dead sep = true ->
-  attr_scan pw (sep ++ s) = attr_scan (match sep with [] => pw | _ => false end) s.
+(* ---------- bytes at which no match can start ---------- *)
+Lemma attr_at_first : forall c r, is_namebyte c = false -> attr_at (c :: r) = None.
+Proof. intros c r H. unfold attr_at. cbn [span]. rewrite H. reflexivity. Qed.
+
+Definition dead (c : Z) : bool := negb (is_namebyte c).
+Lemma attr_skip_dead : forall sep s, forallb dead sep = true ->
+  attr_tokens (sep ++ s) = attr_tokens s.
 Proof.
-  induction sep as [|c sep IH]; intros pw s H.
+  induction sep as [|c sep IH]; intros s H.
   - reflexivity.
   - simpl in H. apply andb_true_iff in H. destruct H as [Hc Hs].
-    unfold dead in Hc. apply andb_true_iff in Hc. destruct Hc as [Hc1 Hc2].
-    apply negb_true_iff in Hc1. apply negb_true_iff in Hc2.
-    rewrite <- app_comm_cons. rewrite attr_scan_cons.
-    rewrite (attr_at_first c (sep ++ s) Hc1). rewrite Hc2.
-    replace (if pw then None else None) with (@None (attrname * str * str)) by (destruct pw; reflexivity).
-    rewrite (IH false s Hs). destruct sep; reflexivity.
+    unfold dead in Hc. apply negb_true_iff in Hc.
+    rewrite <- app_comm_cons. rewrite attr_tokens_cons. rewrite (attr_at_first c _ Hc).
+    apply IH. exact Hs.
 Qed.
 Lemma bspace_dead : forall c, is_bspace c = true -> dead c = true.
-Proof.
-  intros c H. unfold is_bspace in H. apply zin_In in H. simpl in H.
-  repeat (destruct H as [H|H]; [subst c; reflexivity|]). contradiction.
-Qed.
+Proof. intros c H. unfold dead, is_namebyte. rewrite H. reflexivity. Qed.
 Lemma bspaces_dead : forall s, forallb is_bspace s = true -> forallb dead s = true.
 Proof.
   intros s H. rewrite forallb_forall in *. intros c Hc. apply bspace_dead. apply H. exact Hc.
@@ -874,7 +1007,7 @@ Proof.
   destruct H as [H|H]; apply Z.eqb_eq in H; [left|right]; exact H.
 Qed.
 
-(* ---------- a scanned attribute ---------- *)
+(* ---------- one attribute ---------- *)
 Lemma attr_tail_intro : forall q inner rest, is_quote q = true -> zin q inner = false ->
   attr_tail (61 :: q :: inner ++ q :: rest) = Some (inner, rest).
 Proof.
@@ -885,98 +1018,25 @@ Proof.
   { destruct (is_quote_cases q Hq) as [-> | ->]; reflexivity. }
   rewrite Hs. rewrite Hq. apply upto_quote_intro. exact Hz.
 Qed.
-Lemma attr_at_scanned : forall n q inner rest, is_quote q = true -> zin q inner = false ->
-  attr_at (attrname_str n ++ 61 :: q :: inner ++ q :: rest) = Some (n, inner, rest).
+Lemma span_all : forall p nm c r, forallb p nm = true -> p c = false ->
+  span p (nm ++ c :: r) = (nm, c :: r).
 Proof.
-  intros n q inner rest Hq Hz. unfold attr_at, try_attr.
-  destruct n.
-  - change (prefixb (attrname_str NId) (attrname_str NId ++ 61 :: q :: inner ++ q :: rest)) with true.
-    cbv iota.
-    change (skipn (length (attrname_str NId)) (attrname_str NId ++ 61 :: q :: inner ++ q :: rest))
-      with (61 :: q :: inner ++ q :: rest).
-    rewrite (attr_tail_intro q inner rest Hq Hz). reflexivity.
-  - change (prefixb (attrname_str NId) (attrname_str NVersion ++ 61 :: q :: inner ++ q :: rest)) with false.
-    cbv iota.
-    change (prefixb (attrname_str NVersion) (attrname_str NVersion ++ 61 :: q :: inner ++ q :: rest)) with true.
-    cbv iota.
-    change (skipn (length (attrname_str NVersion)) (attrname_str NVersion ++ 61 :: q :: inner ++ q :: rest))
-      with (61 :: q :: inner ++ q :: rest).
-    rewrite (attr_tail_intro q inner rest Hq Hz). reflexivity.
-  - change (prefixb (attrname_str NId) (attrname_str NLabel ++ 61 :: q :: inner ++ q :: rest)) with false.
-    change (prefixb (attrname_str NVersion) (attrname_str NLabel ++ 61 :: q :: inner ++ q :: rest)) with false.
-    cbv iota.
-    change (prefixb (attrname_str NLabel) (attrname_str NLabel ++ 61 :: q :: inner ++ q :: rest)) with true.
-    cbv iota.
-    change (skipn (length (attrname_str NLabel)) (attrname_str NLabel ++ 61 :: q :: inner ++ q :: rest))
-      with (61 :: q :: inner ++ q :: rest).
-    rewrite (attr_tail_intro q inner rest Hq Hz). reflexivity.
+  intros p. induction nm as [|x nm IH]; intros c r H Hc.
+  - simpl. rewrite Hc. reflexivity.
+  - simpl in H. apply andb_true_iff in H. destruct H as [Hx Hn].
+    rewrite <- app_comm_cons. cbn [span]. rewrite Hx. rewrite (IH c r Hn Hc). reflexivity.
+Qed.
+(* the whole attribute is one match, whatever its name and its value are *)
+Lemma attr_at_attr : forall nm q inner rest, nm <> [] -> forallb is_namebyte nm = true ->
+  is_quote q = true -> zin q inner = false ->
+  attr_at (nm ++ 61 :: q :: inner ++ q :: rest) = Some (nm, inner, rest).
+Proof.
+  intros nm q inner rest Hne Hn Hq Hz. unfold attr_at.
+  rewrite (span_all is_namebyte nm 61 _ Hn eq_refl).
+  destruct nm as [|x nm]; [contradiction|].
+  rewrite (attr_tail_intro q inner rest Hq Hz). reflexivity.
 Qed.
 
-(* ---------- inside an attribute name ---------- *)
-Lemma prefixb_app_inv : forall p b c X, zin c p = false ->
-  prefixb p (b ++ c :: X) = true -> prefixb p b = true.
-Proof.
-  induction p as [|x p IH]; intros b c X Hz H.
-  - reflexivity.
-  - rewrite zin_cons in Hz. apply orb_false_iff in Hz. destruct Hz as [Hz1 Hz2].
-    destruct b as [|y b].
-    + simpl in H. apply andb_true_iff in H. destruct H as [H _].
-      rewrite Z.eqb_sym in H. rewrite H in Hz1. discriminate.
-    + simpl in H. apply andb_true_iff in H. destruct H as [H1 H2].
-      simpl. rewrite H1. simpl. apply (IH b c X Hz2 H2).
-Qed.
-
-(* characters of an attribute name: no quote, no bracket, no "=", no white space *)
-Definition name_char (c : Z) : bool :=
-  negb (is_quote c || Z.eqb c c_gt || Z.eqb c 61 || is_bspace c).
-Lemma name_char_inv : forall c, name_char c = true ->
-  is_quote c = false /\ Z.eqb c c_gt = false /\ Z.eqb c 61 = false /\ is_bspace c = false.
-Proof.
-  intros c H. unfold name_char in H. apply negb_true_iff in H.
-  apply orb_false_iff in H. destruct H as [H H4]. apply orb_false_iff in H. destruct H as [H H3].
-  apply orb_false_iff in H. destruct H as [H1 H2]. repeat split; assumption.
-Qed.
-
-Lemma attrname_no_eq : forall n, zin 61 (attrname_str n) = false.
-Proof. destruct n; reflexivity. Qed.
-Lemma attrname_no_quote : forall n q, is_quote q = true -> zin q (attrname_str n) = false.
-Proof. intros n q H. destruct (is_quote_cases q H) as [-> | ->]; destruct n; reflexivity. Qed.
-
-Lemma try_attr_in_name : forall n b X m, forallb name_char b = true ->
-  try_attr n (b ++ 61 :: X) = Some m -> b = attrname_str n.
-Proof.
-  intros n b X m Hb H. unfold try_attr in H.
-  destruct (prefixb (attrname_str n) (b ++ 61 :: X)) eqn:Ep; [|discriminate].
-  apply prefixb_app_inv in Ep; [|apply attrname_no_eq].
-  apply prefixb_split in Ep. set (nm := attrname_str n) in *.
-  set (b2 := skipn (length nm) b) in *. rewrite Ep in H. rewrite <- app_assoc in H.
-  rewrite skipn_app_self in H.
-  destruct b2 as [|c b2'].
-  - rewrite app_nil_r in Ep. exact Ep.
-  - exfalso. rewrite Ep in Hb. rewrite forallb_app in Hb. apply andb_true_iff in Hb.
-    destruct Hb as [_ Hb]. simpl in Hb. apply andb_true_iff in Hb. destruct Hb as [Hc _].
-    apply name_char_inv in Hc. destruct Hc as [_ [_ [Hc3 Hc4]]].
-    unfold attr_tail in H. rewrite <- app_comm_cons in H. simpl lstrip_by in H.
-    rewrite Hc4 in H. rewrite Hc3 in H. discriminate.
-Qed.
-Lemma attr_at_in_name : forall b X, forallb name_char b = true ->
-  attr_at (b ++ 61 :: X) <> None -> exists n, b = attrname_str n.
-Proof.
-  intros b X Hb H. unfold attr_at in H.
-  destruct (try_attr NId (b ++ 61 :: X)) as [m|] eqn:E1.
-  - exists NId. apply (try_attr_in_name _ _ _ _ Hb E1).
-  - destruct (try_attr NVersion (b ++ 61 :: X)) as [m|] eqn:E2.
-    + exists NVersion. apply (try_attr_in_name _ _ _ _ Hb E2).
-    + destruct (try_attr NLabel (b ++ 61 :: X)) as [m|] eqn:E3; [|contradiction].
-      exists NLabel. apply (try_attr_in_name _ _ _ _ Hb E3).
-Qed.
-
-(* is the name one of the three the scanner looks for? *)
-Definition scanned_of (nm : str) : option attrname :=
-  if str_eqb nm (s_ "id") then Some NId
-  else if str_eqb nm (s_ "version") then Some NVersion
-  else if str_eqb nm (s_ "label") then Some NLabel
-  else None.
 Lemma scanned_of_attrname : forall n, scanned_of (attrname_str n) = Some n.
 Proof. destruct n; reflexivity. Qed.
 Lemma scanned_of_some : forall nm n, scanned_of nm = Some n -> nm = attrname_str n.
@@ -991,146 +1051,6 @@ Proof.
 Qed.
 Definition is_scanned (nm : str) : bool := match scanned_of nm with Some _ => true | None => false end.
 
-(* no tail of the name that starts at a word boundary is a scanned name
-   ([pw]: the character before is a word character) *)
-Fixpoint tails_ok (pw : bool) (s : str) : bool :=
-  match s with
-  | [] => true
-  | c :: r => (pw || negb (is_scanned s)) && tails_ok (is_word c) r
-  end.
-Fixpoint lastw (pw : bool) (s : str) : bool :=
-  match s with [] => pw | c :: r => lastw (is_word c) r end.
-
-Lemma attr_skip_name : forall nm pw X, forallb name_char nm = true -> tails_ok pw nm = true ->
-  attr_scan pw (nm ++ 61 :: X) = attr_scan (lastw pw nm) (61 :: X).
-Proof.
-  induction nm as [|c nm IH]; intros pw X Hn Ht.
-  - reflexivity.
-  - simpl in Ht. apply andb_true_iff in Ht. destruct Ht as [Ht1 Ht2].
-    assert (Hn' : forallb name_char nm = true).
-    { simpl in Hn. apply andb_true_iff in Hn. destruct Hn as [_ Hn]. exact Hn. }
-    rewrite <- app_comm_cons. rewrite attr_scan_cons.
-    assert (Hnone : (if pw then None else attr_at (c :: nm ++ 61 :: X)) = None).
-    { destruct pw; [reflexivity|]. simpl in Ht1. apply negb_true_iff in Ht1.
-      destruct (attr_at (c :: nm ++ 61 :: X)) as [m|] eqn:E; [|reflexivity].
-      exfalso. assert (Hne : attr_at ((c :: nm) ++ 61 :: X) <> None).
-      { rewrite <- app_comm_cons. rewrite E. discriminate. }
-      apply (attr_at_in_name _ _ Hn) in Hne. destruct Hne as [n Hnm].
-      unfold is_scanned in Ht1. rewrite Hnm in Ht1. rewrite scanned_of_attrname in Ht1.
-      discriminate. }
-    rewrite Hnone. simpl lastw. apply IH; assumption.
-Qed.
-
-(* ---------- inside a quoted value ---------- *)
-(* optional white space and "=" *)
-Definition eq_follows (s : str) : bool :=
-  match lstrip_by is_bspace s with e :: _ => Z.eqb e 61 | [] => false end.
-(* (id|version|label)\s*= matches here *)
-Definition name_eq_at (s : str) : bool :=
-  existsb (fun n => prefixb (attrname_str n) s && eq_follows (skipn (length (attrname_str n)) s))
-          [NId; NVersion; NLabel].
-(* nowhere in [s] does \b(id|version|label)\s*= match *)
-Fixpoint quiet (pw : bool) (s : str) : bool :=
-  match s with
-  | [] => true
-  | c :: r => (pw || negb (name_eq_at s)) && quiet (is_word c) r
-  end.
-
-Lemma eq_follows_app_quote : forall q b rest, is_quote q = true ->
-  eq_follows (b ++ q :: rest) = eq_follows b.
-Proof.
-  intros q b rest Hq. induction b as [|c b IH].
-  - destruct (is_quote_cases q Hq) as [-> | ->]; reflexivity.
-  - unfold eq_follows in *. rewrite <- app_comm_cons. simpl lstrip_by.
-    destruct (is_bspace c); [exact IH | reflexivity].
-Qed.
-Lemma attr_tail_eq_follows : forall r m, attr_tail r = Some m -> eq_follows r = true.
-Proof.
-  intros r m H. unfold attr_tail in H. unfold eq_follows.
-  destruct (lstrip_by is_bspace r) as [|e r1]; [discriminate|].
-  destruct (Z.eqb e 61); [reflexivity | discriminate].
-Qed.
-
-Lemma try_attr_blocked : forall n b q rest m, is_quote q = true ->
-  try_attr n (b ++ q :: rest) = Some m ->
-  prefixb (attrname_str n) b && eq_follows (skipn (length (attrname_str n)) b) = true.
-Proof.
-  intros n b q rest m Hq H. unfold try_attr in H.
-  destruct (prefixb (attrname_str n) (b ++ q :: rest)) eqn:Ep; [|discriminate].
-  apply prefixb_app_inv in Ep; [|apply attrname_no_quote; exact Hq].
-  rewrite Ep. simpl. pose proof (prefixb_split _ _ Ep) as Hb.
-  set (nm := attrname_str n) in *. set (b2 := skipn (length nm) b) in *.
-  rewrite Hb in H. rewrite <- app_assoc in H. rewrite skipn_app_self in H.
-  destruct (attr_tail (b2 ++ q :: rest)) as [m'|] eqn:Et; [|discriminate].
-  apply attr_tail_eq_follows in Et. rewrite (eq_follows_app_quote q b2 rest Hq) in Et. exact Et.
-Qed.
-Lemma attr_at_blocked : forall b q rest, is_quote q = true -> name_eq_at b = false ->
-  attr_at (b ++ q :: rest) = None.
-Proof.
-  intros b q rest Hq Hn. unfold name_eq_at in Hn. cbn [existsb] in Hn.
-  rewrite orb_false_r in Hn.
-  apply orb_false_iff in Hn. destruct Hn as [Hn1 Hn]. apply orb_false_iff in Hn. destruct Hn as [Hn2 Hn3].
-  unfold attr_at.
-  destruct (try_attr NId (b ++ q :: rest)) as [m|] eqn:E1.
-  { apply (try_attr_blocked _ _ _ _ _ Hq) in E1. rewrite E1 in Hn1. discriminate. }
-  destruct (try_attr NVersion (b ++ q :: rest)) as [m|] eqn:E2.
-  { apply (try_attr_blocked _ _ _ _ _ Hq) in E2. rewrite E2 in Hn2. discriminate. }
-  destruct (try_attr NLabel (b ++ q :: rest)) as [m|] eqn:E3; [|reflexivity].
-  apply (try_attr_blocked _ _ _ _ _ Hq) in E3. rewrite E3 in Hn3. discriminate.
-Qed.
-
-Lemma is_quote_not_word : forall q, is_quote q = true -> is_word q = false /\ starts_name q = false.
-Proof. intros q H. destruct (is_quote_cases q H) as [-> | ->]; split; reflexivity. Qed.
-
-Lemma attr_skip_value : forall inner pw q rest, is_quote q = true -> quiet pw inner = true ->
-  attr_scan pw (inner ++ q :: rest) = attr_scan false rest.
-Proof.
-  induction inner as [|c inner IH]; intros pw q rest Hq Hqt.
-  - change ([] ++ q :: rest) with (q :: rest). rewrite attr_scan_cons.
-    destruct (is_quote_not_word q Hq) as [Hw Hs].
-    rewrite (attr_at_first q rest Hs). rewrite Hw. destruct pw; reflexivity.
-  - simpl in Hqt. apply andb_true_iff in Hqt. destruct Hqt as [H1 H2].
-    rewrite <- app_comm_cons. rewrite attr_scan_cons.
-    assert (Hnone : (if pw then None else attr_at (c :: inner ++ q :: rest)) = None).
-    { destruct pw; [reflexivity|]. simpl in H1. apply negb_true_iff in H1.
-      rewrite app_comm_cons. apply attr_at_blocked; assumption. }
-    rewrite Hnone. apply IH; assumption.
-Qed.
-
-(* a value without "=" is quiet *)
-Lemma eq_follows_zin : forall s, eq_follows s = true -> zin 61 s = true.
-Proof.
-  induction s as [|c s IH]; intro H.
-  - discriminate.
-  - unfold eq_follows in H. simpl lstrip_by in H. rewrite zin_cons.
-    destruct (is_bspace c).
-    + rewrite (IH H). apply orb_true_r.
-    + rewrite Z.eqb_sym. rewrite H. reflexivity.
-Qed.
-Lemma zin_skipn : forall c k s, zin c (skipn k s) = true -> zin c s = true.
-Proof.
-  intros c k. induction k as [|k IH]; intros s H.
-  - exact H.
-  - destruct s as [|x s]; [discriminate|]. simpl in H. rewrite zin_cons.
-    rewrite (IH s H). apply orb_true_r.
-Qed.
-Lemma name_eq_at_zin : forall s, name_eq_at s = true -> zin 61 s = true.
-Proof.
-  intros s H. unfold name_eq_at in H. apply existsb_exists in H. destruct H as [n [_ H]].
-  apply andb_true_iff in H. destruct H as [_ H]. apply eq_follows_zin in H.
-  apply (zin_skipn _ _ _ H).
-Qed.
-Lemma no_eq_quiet : forall s pw, zin 61 s = false -> quiet pw s = true.
-Proof.
-  induction s as [|c s IH]; intros pw H.
-  - reflexivity.
-  - simpl. apply andb_true_iff. split.
-    + destruct (name_eq_at (c :: s)) eqn:E.
-      * apply name_eq_at_zin in E. rewrite E in H. discriminate.
-      * apply orb_true_r.
-    + apply IH. rewrite zin_cons in H. apply orb_false_iff in H. destruct H as [_ H]. exact H.
-Qed.
-
 (* ====================================================================== *)
 (* Tags: a sequence of attributes  sep name = q value q,  then a trailer  *)
 (* ====================================================================== *)
@@ -1139,30 +1059,24 @@ Definition rattr_text (a : rattr) : str :=
   ra_sep a ++ ra_name a ++ 61 :: ra_q a :: ra_inner a ++ [ra_q a].
 Definition rem_text (l : list rattr) (trailer : str) : str := concat (map rattr_text l) ++ trailer.
 
+Definition nonempty (s : str) : bool := match s with [] => false | _ => true end.
 (* well-formed: white space, a name, a quote character that does not occur in the value *)
 Definition rattr_wf (a : rattr) : bool :=
-  forallb is_bspace (ra_sep a) && forallb name_char (ra_name a)
+  forallb is_bspace (ra_sep a) && nonempty (ra_name a) && forallb is_namebyte (ra_name a)
   && is_quote (ra_q a) && negb (zin (ra_q a) (ra_inner a)).
-(* an attribute the scanner does not look for must not look like one from inside:
-   no tail of its name is id / version / label at a word boundary, and inside its value
-   \b(id|version|label)\s*= does not match *)
-Definition rattr_quiet (a : rattr) : bool :=
-  match scanned_of (ra_name a) with
-  | Some _ => true
-  | None => tails_ok false (ra_name a) && quiet false (ra_inner a)
-  end.
-(* what the scanner reports for it *)
-Definition rattr_sel (a : rattr) : list (attrname * str) :=
-  match scanned_of (ra_name a) with Some n => [(n, ra_inner a)] | None => [] end.
+(* the token the scanner makes of it, and what enters the dictionary *)
+Definition rattr_token (a : rattr) : str * str := (ra_name a, ra_inner a).
+Definition rattr_sel (a : rattr) : list (attrname * str) := attr_sel (rattr_token a).
 
 Lemma rattr_wf_inv : forall a, rattr_wf a = true ->
-  forallb is_bspace (ra_sep a) = true /\ forallb name_char (ra_name a) = true
+  forallb is_bspace (ra_sep a) = true /\ ra_name a <> [] /\ forallb is_namebyte (ra_name a) = true
   /\ is_quote (ra_q a) = true /\ zin (ra_q a) (ra_inner a) = false.
 Proof.
   intros a H. unfold rattr_wf in H.
-  apply andb_true_iff in H. destruct H as [H H4]. apply andb_true_iff in H. destruct H as [H H3].
-  apply andb_true_iff in H. destruct H as [H1 H2]. apply negb_true_iff in H4.
-  repeat split; assumption.
+  apply andb_true_iff in H. destruct H as [H H5]. apply andb_true_iff in H. destruct H as [H H4].
+  apply andb_true_iff in H. destruct H as [H H3]. apply andb_true_iff in H. destruct H as [H1 H2].
+  apply negb_true_iff in H5.
+  repeat split; try assumption. intro E. rewrite E in H2. discriminate.
 Qed.
 
 Lemma bspace_plain : forall c, is_bspace c = true -> plain_char c = true.
@@ -1170,10 +1084,12 @@ Proof.
   intros c H. unfold is_bspace in H. apply zin_In in H. simpl in H.
   repeat (destruct H as [H|H]; [subst c; reflexivity|]). contradiction.
 Qed.
-Lemma name_char_plain : forall c, name_char c = true -> plain_char c = true.
+Lemma namebyte_plain : forall c, is_namebyte c = true -> plain_char c = true.
 Proof.
-  intros c H. apply name_char_inv in H. destruct H as [H1 [H2 _]].
-  unfold plain_char. rewrite H1, H2. reflexivity.
+  intros c H. unfold is_namebyte in H. apply negb_true_iff in H.
+  apply orb_false_iff in H. destruct H as [H _]. apply orb_false_iff in H. destruct H as [H Hq].
+  apply orb_false_iff in H. destruct H as [_ Hg].
+  unfold plain_char. rewrite Hg, Hq. reflexivity.
 Qed.
 Lemma forallb_impl : forall (f g : Z -> bool) s,
   (forall c, f c = true -> g c = true) -> forallb f s = true -> forallb g s = true.
@@ -1191,10 +1107,10 @@ Qed.
 Lemma rem_aux_rattr : forall a s, rattr_wf a = true ->
   rem_aux None (rattr_text a ++ s) = prepend (rattr_text a) (rem_aux None s).
 Proof.
-  intros a s H. apply rattr_wf_inv in H. destruct H as [H1 [H2 [H3 H4]]].
+  intros a s H. apply rattr_wf_inv in H. destruct H as [H1 [_ [H2 [H3 H4]]]].
   rewrite rattr_text_app.
   rewrite rem_aux_plain by (apply (forallb_impl _ _ _ bspace_plain H1)).
-  rewrite rem_aux_plain by (apply (forallb_impl _ _ _ name_char_plain H2)).
+  rewrite rem_aux_plain by (apply (forallb_impl _ _ _ namebyte_plain H2)).
   change (61 :: ra_q a :: ra_inner a ++ ra_q a :: s) with ([61] ++ ra_q a :: ra_inner a ++ ra_q a :: s).
   rewrite rem_aux_plain by reflexivity.
   rewrite (rem_aux_quoted _ _ s H3 H4).
@@ -1216,50 +1132,41 @@ Proof.
     fold (rem_text l trailer). rewrite (IH trailer rest Hl Ht). reflexivity.
 Qed.
 
-Lemma attr_scan_at : forall s n v rest, attr_at s = Some (n, v, rest) ->
-  attr_scan false s = (n, v) :: attr_scan false rest.
+(* the attribute scanner takes the attribute as ONE token, whatever its value contains *)
+Lemma attr_tokens_rattr : forall a s, rattr_wf a = true ->
+  attr_tokens (rattr_text a ++ s) = rattr_token a :: attr_tokens s.
 Proof.
-  intros s n v rest H. destruct s as [|c r]; [discriminate|].
-  rewrite attr_scan_cons. rewrite H. reflexivity.
-Qed.
-
-Lemma attr_scan_rattr : forall a s, rattr_wf a = true -> rattr_quiet a = true ->
-  attr_scan false (rattr_text a ++ s) = rattr_sel a ++ attr_scan false s.
-Proof.
-  intros a s H Hq. apply rattr_wf_inv in H. destruct H as [H1 [H2 [H3 H4]]].
+  intros a s H. apply rattr_wf_inv in H. destruct H as [H1 [Hne [H2 [H3 H4]]]].
   rewrite rattr_text_app.
   rewrite attr_skip_dead by (apply bspaces_dead; exact H1).
-  replace (match ra_sep a with [] => false | _ :: _ => false end) with false by (destruct (ra_sep a); reflexivity).
-  unfold rattr_quiet in Hq. unfold rattr_sel.
-  destruct (scanned_of (ra_name a)) as [n|] eqn:Es.
-  - apply scanned_of_some in Es. rewrite Es.
-    rewrite (attr_scan_at _ n (ra_inner a) s); [reflexivity|].
-    apply attr_at_scanned; assumption.
-  - apply andb_true_iff in Hq. destruct Hq as [Hq1 Hq2].
-    rewrite (attr_skip_name _ _ _ H2 Hq1).
-    rewrite attr_scan_cons. rewrite attr_at_first by reflexivity.
-    replace (if lastw false (ra_name a) then None else None) with (@None (attrname * str * str))
-      by (destruct (lastw false (ra_name a)); reflexivity).
-    change (is_word 61) with false.
-    rewrite attr_scan_cons. destruct (is_quote_not_word _ H3) as [Hw Hs].
-    rewrite (attr_at_first _ _ Hs). rewrite Hw.
-    rewrite (attr_skip_value _ _ _ s H3 Hq2). reflexivity.
+  apply attr_tokens_at. apply attr_at_attr; assumption.
 Qed.
-
+(* ... so the remainder is tokenised into exactly the attributes that were written *)
+Theorem attr_tokens_rem_text : forall l trailer,
+  forallb rattr_wf l = true -> forallb dead trailer = true ->
+  attr_tokens (rem_text l trailer) = map rattr_token l.
+Proof.
+  intros l trailer Hl Ht. induction l as [|a l IH].
+  - unfold rem_text. simpl concat. simpl app. simpl map.
+    rewrite <- (app_nil_r trailer). rewrite attr_skip_dead by exact Ht. apply attr_tokens_nil.
+  - simpl in Hl. apply andb_true_iff in Hl. destruct Hl as [Ha Hl].
+    unfold rem_text. cbn [map concat]. rewrite <- app_assoc.
+    rewrite (attr_tokens_rattr a _ Ha). fold (rem_text l trailer).
+    rewrite (IH Hl). reflexivity.
+Qed.
+Lemma flat_map_map : forall {A B C} (f : B -> list C) (g : A -> B) l,
+  flat_map f (map g l) = flat_map (fun x => f (g x)) l.
+Proof.
+  intros A B C f g l. induction l as [|x l IH]; [reflexivity|]. simpl. rewrite IH. reflexivity.
+Qed.
 Lemma attr_matches_rem_text : forall l trailer,
-  forallb rattr_wf l = true -> forallb rattr_quiet l = true -> forallb dead trailer = true ->
+  forallb rattr_wf l = true -> forallb dead trailer = true ->
   attr_matches (rem_text l trailer) = flat_map rattr_sel l.
 Proof.
-  intros l trailer Hl Hq Ht. rewrite attr_matches_eq.
-  induction l as [|a l IH].
-  - unfold rem_text. simpl concat. simpl app. simpl flat_map.
-    rewrite <- (app_nil_r trailer). rewrite attr_skip_dead by exact Ht. apply attr_scan_nil.
-  - simpl in Hl, Hq. apply andb_true_iff in Hl. destruct Hl as [Ha Hl].
-    apply andb_true_iff in Hq. destruct Hq as [Hqa Hq].
-    unfold rem_text. simpl map. simpl concat. rewrite <- app_assoc.
-    rewrite (attr_scan_rattr a _ Ha Hqa). fold (rem_text l trailer).
-    rewrite (IH Hl Hq). reflexivity.
+  intros l trailer Hl Ht. unfold attr_matches. rewrite (attr_tokens_rem_text l trailer Hl Ht).
+  rewrite flat_map_map. reflexivity.
 Qed.
+
 
 (* the lex scanner takes exactly the tag *)
 Lemma lex_at_tag : forall t l trailer rest,
@@ -1482,6 +1389,7 @@ Proof.
 Qed.
 
 (* ====================================================================== *)
+(* ====================================================================== *)
 (* A tag inside a text                                                    *)
 (* ====================================================================== *)
 Record item : Type :=
@@ -1490,12 +1398,27 @@ Definition item_rem (it : item) : str := rem_text (it_attrs it) (it_trailer it).
 Definition item_text (it : item) : str :=
   it_pre it ++ c_lt :: lextype_name (it_type it) ++ item_rem it ++ c_gt :: it_post it.
 Definition item_ok (it : item) : bool :=
-  lt_free (it_pre it) && lt_free (it_post it) && forallb rattr_wf (it_attrs it)
+  lt_freew (it_pre it) && lt_freew (it_post it) && forallb rattr_wf (it_attrs it)
   && forallb plain_char (it_trailer it) && boundary_after (item_rem it ++ [c_gt]).
 
 Lemma boundary_after_app : forall x c rest,
   boundary_after (x ++ c :: rest) = boundary_after (x ++ [c]).
 Proof. intros x c rest. destruct x; reflexivity. Qed.
+
+Lemma skip_at_lextype : forall t s, skip_at (lextype_name t ++ s) = None.
+Proof. intros t s. destruct t; apply skip_at_first; reflexivity. Qed.
+
+Lemma lex_matches_tag : forall t l trailer rest,
+  forallb rattr_wf l = true -> forallb plain_char trailer = true ->
+  boundary_after (rem_text l trailer ++ [c_gt]) = true ->
+  lex_matches (c_lt :: lextype_name t ++ rem_text l trailer ++ c_gt :: rest)
+  = (t, rem_text l trailer) :: lex_matches rest.
+Proof.
+  intros t l trailer rest Hl Ht Hb. rewrite lex_matches_cons.
+  change (Z.eqb c_lt c_lt) with true. cbv iota. rewrite skip_at_lextype.
+  rewrite (lex_at_tag t l trailer rest Hl Ht) by (rewrite boundary_after_app; exact Hb).
+  reflexivity.
+Qed.
 
 Lemma lex_matches_item : forall it s, item_ok it = true ->
   lex_matches (item_text it ++ s) = (it_type it, item_rem it) :: lex_matches s.
@@ -1504,10 +1427,8 @@ Proof.
   apply andb_true_iff in H. destruct H as [H H5]. apply andb_true_iff in H. destruct H as [H H4].
   apply andb_true_iff in H. destruct H as [H H3]. apply andb_true_iff in H. destruct H as [H1 H2].
   unfold item_text. rewrite <- app_assoc. rewrite (lex_matches_skip _ _ H1).
-  rewrite <- app_comm_cons. rewrite lex_matches_cons. change (Z.eqb c_lt c_lt) with true. cbv iota.
-  rewrite <- !app_assoc. rewrite <- app_comm_cons. unfold item_rem in *.
-  rewrite (lex_at_tag (it_type it) (it_attrs it) (it_trailer it) (it_post it ++ s) H3 H4)
-    by (rewrite boundary_after_app; exact H5).
+  rewrite <- app_comm_cons. rewrite <- !app_assoc. rewrite <- app_comm_cons. unfold item_rem in *.
+  rewrite (lex_matches_tag (it_type it) (it_attrs it) (it_trailer it) (it_post it ++ s) H3 H4 H5).
   rewrite (lex_matches_skip _ _ H2). reflexivity.
 Qed.
 
@@ -1564,14 +1485,15 @@ Proof.
     unfold rem_text. simpl. rewrite !app_nil_r. reflexivity.
 Qed.
 
-(* hypotheses on the names, and on the values of the attributes the scanner ignores *)
-Definition attr_name_ok (nm : str) : bool := ascii nm && forallb name_char nm.
-Definition value_quiet (v : str) : bool := quiet false (utf8_encode (quoteattr_inner v)).
-Definition q_attr_quiet (kv : str * str) : bool :=
-  match scanned_of (fst kv) with
-  | Some _ => true
-  | None => tails_ok false (fst kv) && value_quiet (snd kv)
-  end.
+(* the only hypothesis on an attribute: its name is ASCII, not empty, and made of name
+   bytes (no white space, "=", angle bracket, quote or "/") *)
+Definition attr_name_ok (nm : str) : bool := ascii nm && nonempty nm && forallb is_namebyte nm.
+Lemma attr_name_ok_inv : forall nm, attr_name_ok nm = true ->
+  ascii nm = true /\ nonempty nm = true /\ forallb is_namebyte nm = true.
+Proof.
+  intros nm H. unfold attr_name_ok in H. apply andb_true_iff in H. destruct H as [H H3].
+  apply andb_true_iff in H. destruct H as [H1 H2]. repeat split; assumption.
+Qed.
 
 Lemma q_rattrs_wf : forall l sep delim,
   forallb is_bspace sep = true -> forallb is_bspace delim = true ->
@@ -1581,27 +1503,16 @@ Proof.
   induction l as [|kv l IH]; intros sep delim Hs Hd Hk.
   - reflexivity.
   - simpl in Hk. apply andb_true_iff in Hk. destruct Hk as [Hk Hl].
-    unfold attr_name_ok in Hk. apply andb_true_iff in Hk. destruct Hk as [_ Hk].
+    apply attr_name_ok_inv in Hk. destruct Hk as [_ [Hk1 Hk2]].
     simpl. rewrite (IH delim delim Hd Hd Hl). rewrite andb_true_r.
     unfold rattr_wf, q_rattr. simpl.
     destruct (quoteattr_shape (snd kv)) as [_ [Hz Hq]].
-    rewrite Hs, Hk, Hq. simpl.
+    rewrite Hs, Hk1, Hk2, Hq. simpl.
     rewrite zin_utf8_encode by (apply is_quote_lt128; exact Hq). rewrite Hz. reflexivity.
 Qed.
-Lemma q_rattrs_quiet : forall l sep delim, forallb q_attr_quiet l = true ->
-  forallb rattr_quiet (q_rattrs sep delim l) = true.
-Proof.
-  induction l as [|kv l IH]; intros sep delim H.
-  - reflexivity.
-  - simpl in H. apply andb_true_iff in H. destruct H as [Hk Hl].
-    simpl. rewrite (IH delim delim Hl). rewrite andb_true_r. exact Hk.
-Qed.
-Lemma q_rattrs_sel : forall l sep delim,
-  flat_map rattr_sel (q_rattrs sep delim l)
-  = flat_map (fun kv => match scanned_of (fst kv) with
-                        | Some n => [(n, utf8_encode (quoteattr_inner (snd kv)))]
-                        | None => []
-                        end) l.
+(* the tokens: the written names with the bytes of the escaped values *)
+Definition q_token (kv : str * str) : str * str := (fst kv, utf8_encode (quoteattr_inner (snd kv))).
+Lemma q_rattrs_tokens : forall l sep delim, map rattr_token (q_rattrs sep delim l) = map q_token l.
 Proof.
   induction l as [|kv l IH]; intros sep delim.
   - reflexivity.
@@ -1616,44 +1527,35 @@ Proof. induction n as [|n IH]; [reflexivity | simpl; exact IH]. Qed.
 (* the element names of a lexicon *)
 Definition lexicon_type (t : lextype) : Prop := t = TLexicon \/ t = TLexiconExtension.
 
-(* S2, general form: whatever the attributes are — well-formed names, quiet
-   values — the lex scanner takes exactly the start tag and the attribute scanner
-   reports exactly the id / version / label attributes, with the bytes of their
-   escaped values *)
+(* S2, general form: whatever the attributes and their values are, the lex scanner
+   takes exactly the start tag, and the attribute scanner tokenises the remainder into
+   exactly the written (name, value) pairs — no hypothesis on the values *)
 Theorem start_tag_scanned : forall t attrib rest,
   attrib <> [] ->
   forallb (fun kv => attr_name_ok (fst kv)) attrib = true ->
-  forallb q_attr_quiet attrib = true ->
   let R := utf8_encode (start_tag_rem (lextype_name t) attrib) in
-  lex_at (utf8_encode (lextype_name t ++ start_tag_rem (lextype_name t) attrib ++ [c_gt] ++ rest))
-    = Some (t, R, utf8_encode rest)
-  /\ attr_matches R
-     = flat_map (fun kv => match scanned_of (fst kv) with
-                           | Some n => [(n, utf8_encode (quoteattr_inner (snd kv)))]
-                           | None => []
-                           end) attrib.
+  lex_at (utf8_encode (lextype_name t ++ start_tag_rem (lextype_name t) attrib) ++ c_gt :: rest)
+    = Some (t, R, rest)
+  /\ attr_tokens R = map q_token attrib.
 Proof.
-  intros t attrib rest Hne Hn Hq R.
+  intros t attrib rest Hne Hn R.
   set (delim := c_nl :: spaces (length (s_ "  <" ++ lextype_name t ++ [c_sp]))) in *.
   assert (Hda : ascii delim = true) by (unfold delim; simpl; apply spaces_ascii).
   assert (Hdb : forallb is_bspace delim = true) by (unfold delim; simpl; apply spaces_bspace).
   assert (Hka : forallb (fun kv => ascii (fst kv)) attrib = true).
   { rewrite forallb_forall in *. intros kv Hkv. specialize (Hn kv Hkv).
-    unfold attr_name_ok in Hn. apply andb_true_iff in Hn. destruct Hn as [Hn _]. exact Hn. }
+    apply attr_name_ok_inv in Hn. destruct Hn as [Hn _]. exact Hn. }
   assert (HR : R = rem_text (q_rattrs [c_sp] delim attrib) []).
   { unfold R, start_tag_rem. fold delim.
     apply utf8_join_parts; [exact Hne | reflexivity | exact Hda | exact Hka]. }
   assert (Hwf : forallb rattr_wf (q_rattrs [c_sp] delim attrib) = true).
   { apply q_rattrs_wf; [reflexivity | exact Hdb | exact Hn]. }
   split.
-  - rewrite !utf8_encode_app. fold R.
+  - rewrite utf8_encode_app. fold R.
     rewrite (utf8_encode_ascii (lextype_name t)) by (destruct t; reflexivity).
-    change (utf8_encode [c_gt]) with [c_gt].
-    change ([c_gt] ++ utf8_encode rest) with (c_gt :: utf8_encode rest).
-    rewrite HR. apply lex_at_tag; [exact Hwf | reflexivity |].
+    rewrite <- app_assoc. rewrite HR. apply lex_at_tag; [exact Hwf | reflexivity |].
     destruct attrib as [|kv l]; [contradiction|]. reflexivity.
-  - rewrite HR. rewrite attr_matches_rem_text;
-      [apply q_rattrs_sel | exact Hwf | apply q_rattrs_quiet; exact Hq | reflexivity].
+  - rewrite HR. rewrite attr_tokens_rem_text; [apply q_rattrs_tokens | exact Hwf | reflexivity].
 Qed.
 
 (* ---------- the attribute names _build_lexicon_attrib produces ---------- *)
@@ -1665,121 +1567,83 @@ Definition lexicon_attrib (id label language email license version : str)
 Definition extra_names : list str :=
   map s_ ["url"; "citation"; "logo"]%string ++ map fst meta_keys ++ [s_ "confidenceScore"].
 
-(* every name is well-formed, and those the scanner does not look for cannot be
-   mistaken for id / version / label (no  xml:id, my-version, ...) *)
+(* every name the writer uses is a well-formed attribute name *)
 Lemma lexicon_names_ok :
-  forallb (fun nm => attr_name_ok nm && (is_scanned nm || tails_ok false nm))
+  forallb attr_name_ok
           (map s_ ["id"; "label"; "language"; "email"; "license"; "version"]%string ++ extra_names) = true.
 Proof. vm_compute. reflexivity. Qed.
 Lemma extra_names_unscanned : forallb (fun nm => negb (is_scanned nm)) extra_names = true.
 Proof. vm_compute. reflexivity. Qed.
 
 Lemma extra_name_facts : forall nm, In nm extra_names ->
-  attr_name_ok nm = true /\ scanned_of nm = None /\ tails_ok false nm = true.
+  attr_name_ok nm = true /\ scanned_of nm = None.
 Proof.
   intros nm H.
   pose proof lexicon_names_ok as H1. rewrite forallb_forall in H1.
   assert (Hin : In nm (map s_ ["id"; "label"; "language"; "email"; "license"; "version"]%string ++ extra_names)).
   { apply in_or_app. right. exact H. }
-  specialize (H1 nm Hin). apply andb_true_iff in H1. destruct H1 as [Ha Hb].
+  specialize (H1 nm Hin).
   pose proof extra_names_unscanned as H2. rewrite forallb_forall in H2. specialize (H2 nm H).
   apply negb_true_iff in H2. unfold is_scanned in H2.
-  destruct (scanned_of nm) eqn:Es; [discriminate|].
-  unfold is_scanned in Hb. rewrite Es in Hb. simpl in Hb. repeat split; assumption.
+  destruct (scanned_of nm) eqn:Es; [discriminate|]. split; [exact H1 | reflexivity].
 Qed.
 
-(* a value without "=" is quiet, whatever else it contains *)
-Lemma sax_f_no_eq : forall c, c <> 61 -> zin 61 (sax_f c) = false.
-Proof.
-  intros c H. unfold sax_f, c_amp, c_lt, c_gt, c_cr, c_nl, c_tab. dz c; try reflexivity.
-  apply zin_single_neq. exact H.
-Qed.
-Lemma saxq_f_no_eq : forall c, c <> 61 -> zin 61 (saxq_f c) = false.
-Proof.
-  intros c H. unfold saxq_f. destruct (Z.eqb c c_quot); [reflexivity | apply sax_f_no_eq; exact H].
-Qed.
-Lemma zin_flat_map_neq : forall x (g : Z -> str) s,
-  (forall c, c <> x -> zin x (g c) = false) -> zin x s = false -> zin x (flat_map g s) = false.
-Proof.
-  intros x g s Hg. induction s as [|c s IH]; intro H.
-  - reflexivity.
-  - rewrite zin_cons in H. apply orb_false_iff in H. destruct H as [H1 H2].
-    simpl. rewrite zin_app. rewrite (IH H2). rewrite orb_false_r. apply Hg.
-    intro E. subst c. rewrite Z.eqb_refl in H1. discriminate.
-Qed.
-Theorem no_eq_value_quiet : forall v, zin 61 v = false -> value_quiet v = true.
-Proof.
-  intros v H. unfold value_quiet. apply no_eq_quiet.
-  rewrite zin_utf8_encode by lia. unfold quoteattr_inner. cbv zeta.
-  destruct (zin c_quot (flat_map sax_f v) && zin c_apos (flat_map sax_f v)).
-  - apply zin_flat_map_neq; [apply saxq_f_no_eq | exact H].
-  - apply zin_flat_map_neq; [apply sax_f_no_eq | exact H].
-Qed.
-
-Definition values_ok (l : list (str * str)) : bool :=
-  forallb (fun kv => scalars (snd kv)) l.
-
-(* S2 for the dictionary _build_lexicon_attrib makes *)
+(* S2 for the dictionary _build_lexicon_attrib makes: the scan returns its id, version
+   and label whatever the other attributes contain *)
 Theorem lexicon_start_tag_scanned :
   forall t id label language email license version extra rest,
   Forall (fun kv => In (fst kv) extra_names) extra ->
   scalars id = true -> scalars label = true -> scalars version = true ->
-  value_quiet language = true -> value_quiet email = true -> value_quiet license = true ->
-  forallb (fun kv => value_quiet (snd kv)) extra = true ->
   let attrib := lexicon_attrib id label language email license version extra in
   let R := utf8_encode (start_tag_rem (lextype_name t) attrib) in
-  lex_at (utf8_encode (lextype_name t ++ start_tag_rem (lextype_name t) attrib ++ [c_gt] ++ rest))
-    = Some (t, R, utf8_encode rest)
+  lex_at (utf8_encode (lextype_name t ++ start_tag_rem (lextype_name t) attrib) ++ c_gt :: rest)
+    = Some (t, R, rest)
+  /\ attr_tokens R = map q_token attrib
   /\ tag_info R = Ok (mkInfo id version (Some label) None).
 Proof.
-  intros t id label language email license version extra rest Hex Hid Hlab Hver Hq1 Hq2 Hq3 Hqx attrib R.
+  intros t id label language email license version extra rest Hex Hid Hlab Hver attrib R.
   assert (Hnames : forallb (fun kv => attr_name_ok (fst kv)) attrib = true).
   { unfold attrib, lexicon_attrib. rewrite forallb_app. apply andb_true_iff. split; [reflexivity|].
     rewrite forallb_forall. intros kv Hkv. rewrite Forall_forall in Hex.
     apply (extra_name_facts _ (Hex kv Hkv)). }
-  assert (Hquiet : forallb q_attr_quiet attrib = true).
-  { unfold attrib, lexicon_attrib. rewrite forallb_app. apply andb_true_iff. split.
-    - simpl. unfold q_attr_quiet. simpl. rewrite Hq1, Hq2, Hq3. reflexivity.
-    - rewrite forallb_forall. intros kv Hkv. rewrite Forall_forall in Hex.
-      destruct (extra_name_facts _ (Hex kv Hkv)) as [_ [Hs Ht]].
-      unfold q_attr_quiet. rewrite Hs. rewrite Ht. simpl.
-      rewrite forallb_forall in Hqx. apply (Hqx kv Hkv). }
   destruct (start_tag_scanned t attrib rest) as [H1 H2];
-    [unfold attrib, lexicon_attrib; discriminate | exact Hnames | exact Hquiet |].
-  split; [exact H1|].
-  unfold tag_info. fold R in H2. rewrite H2.
-  assert (Hsel : flat_map (fun kv => match scanned_of (fst kv) with
-                                     | Some n => [(n, utf8_encode (quoteattr_inner (snd kv)))]
-                                     | None => []
-                                     end) extra = []).
+    [unfold attrib, lexicon_attrib; discriminate | exact Hnames |].
+  split; [exact H1|]. fold R in H2. split; [exact H2|].
+  unfold tag_info, attr_matches. rewrite H2.
+  assert (Hsel : flat_map attr_sel (map q_token extra) = []).
   { clear - Hex. induction extra as [|kv l IH]; [reflexivity|].
-    inversion Hex as [|x y Hx Hy]; subst. simpl.
-    destruct (extra_name_facts _ Hx) as [_ [Hs _]]. rewrite Hs. simpl. apply IH. exact Hy. }
-  unfold attrib, lexicon_attrib. rewrite flat_map_app. rewrite Hsel. rewrite app_nil_r.
-  simpl flat_map.
+    inversion Hex as [|x y Hx Hy]; subst. cbn [map flat_map].
+    destruct (extra_name_facts _ Hx) as [_ Hs]. unfold attr_sel at 1. cbn [q_token fst].
+    rewrite Hs. simpl. apply IH. exact Hy. }
+  unfold attrib, lexicon_attrib. rewrite map_app. rewrite flat_map_app. rewrite Hsel. rewrite app_nil_r.
+  change (flat_map attr_sel (map q_token
+            [(s_ "id", id); (s_ "label", label); (s_ "language", language); (s_ "email", email);
+             (s_ "license", license); (s_ "version", version)]))
+    with [(NId, utf8_encode (quoteattr_inner id)); (NLabel, utf8_encode (quoteattr_inner label));
+          (NVersion, utf8_encode (quoteattr_inner version))].
   rewrite (build_attrs_cons _ _ _ _ id (attr_value_quoteattr id Hid)).
   rewrite (build_attrs_cons _ _ _ _ label (attr_value_quoteattr label Hlab)).
   rewrite (build_attrs_cons _ _ _ _ version (attr_value_quoteattr version Hver)).
   reflexivity.
 Qed.
 
-(* ---------- the statement asked for is FALSE without the hypothesis on the values
-   the scanner does not look for: it does look inside them.  A lexicon whose url is
-   the text  version="evil"  is scanned with the version  evil  . ---------- *)
-Example start_tag_spurious_witness :
+(* ---------- the inputs on which the scanner of the earlier source tree failed (it
+   looked for id= / version= / label= inside the values of other attributes) are now
+   scanned correctly ---------- *)
+Example start_tag_old_witness :
   let attrib := lexicon_attrib (s_ "a") (s_ "x") (s_ "en") (s_ "e") (s_ "l") (s_ "1")
+                               [(s_ "url", s_ "see version=""2"" there")] in
+  tag_info (utf8_encode (start_tag_rem (s_ "Lexicon") attrib))
+  = Ok (mkInfo (s_ "a") (s_ "1") (Some (s_ "x")) None)
+  /\ attr_tokens (utf8_encode (start_tag_rem (s_ "Lexicon") attrib))
+     = [(s_ "id", s_ "a"); (s_ "label", s_ "x"); (s_ "language", s_ "en"); (s_ "email", s_ "e");
+        (s_ "license", s_ "l"); (s_ "version", s_ "1"); (s_ "url", s_ "see version=""2"" there")].
+Proof. vm_compute. split; reflexivity. Qed.
+Example start_tag_old_witness2 :
+  let attrib := lexicon_attrib (s_ "a") (s_ "x") (s_ "en") (s_ "id=") (s_ "l") (s_ "1")
                                [(s_ "url", s_ "version=""evil""")] in
   tag_info (utf8_encode (start_tag_rem (s_ "Lexicon") attrib))
-  = Ok (mkInfo (s_ "a") (s_ "evil") (Some (s_ "x")) None)
-  /\ value_quiet (s_ "version=""evil""") = false.
-Proof. vm_compute. split; reflexivity. Qed.
-(* the closing quote of the value and the opening quote of the next attribute can
-   delimit the spurious match as well: email  id=  swallows the next attribute name *)
-Example start_tag_spurious_witness2 :
-  let attrib := lexicon_attrib (s_ "a") (s_ "x") (s_ "en") (s_ "id=") (s_ "l") (s_ "1") [] in
-  option_map (fun i => i_id i)
-    (match tag_info (utf8_encode (start_tag_rem (s_ "Lexicon") attrib)) with Ok i => Some i | Err _ => None end)
-  = Some (spaces 12 ++ s_ "license=").
+  = Ok (mkInfo (s_ "a") (s_ "1") (Some (s_ "x")) None).
 Proof. vm_compute. reflexivity. Qed.
 
 (* ====================================================================== *)
@@ -1806,44 +1670,17 @@ Proof.
     cbn [map concat]. rewrite utf8_encode_app. rewrite (utf8_e_part kv Hk). rewrite (IH Hl). reflexivity.
 Qed.
 
-Definition ea_value_quiet (v : str) : bool := quiet false (utf8_encode (escape_attrib v)).
-Definition e_attr_quiet (kv : str * str) : bool :=
-  match scanned_of (fst kv) with
-  | Some _ => true
-  | None => tails_ok false (fst kv) && ea_value_quiet (snd kv)
-  end.
-
 Lemma e_rattrs_wf : forall l, forallb (fun kv => attr_name_ok (fst kv)) l = true ->
   forallb rattr_wf (map e_rattr l) = true.
 Proof.
   induction l as [|kv l IH]; intro H.
   - reflexivity.
   - simpl in H. apply andb_true_iff in H. destruct H as [Hk Hl].
-    unfold attr_name_ok in Hk. apply andb_true_iff in Hk. destruct Hk as [_ Hk].
+    apply attr_name_ok_inv in Hk. destruct Hk as [_ [Hk1 Hk2]].
     simpl. rewrite (IH Hl). rewrite andb_true_r.
-    unfold rattr_wf, e_rattr. simpl. rewrite Hk. simpl.
+    unfold rattr_wf, e_rattr. simpl. rewrite Hk1, Hk2. simpl.
     rewrite zin_utf8_encode by (unfold c_quot; lia).
     destruct (escape_attrib_wellformed (snd kv)) as [Hq _]. rewrite Hq. reflexivity.
-Qed.
-Lemma e_rattrs_quiet : forall l, forallb e_attr_quiet l = true ->
-  forallb rattr_quiet (map e_rattr l) = true.
-Proof.
-  induction l as [|kv l IH]; intro H.
-  - reflexivity.
-  - simpl in H. apply andb_true_iff in H. destruct H as [Hk Hl].
-    simpl. rewrite (IH Hl). rewrite andb_true_r. exact Hk.
-Qed.
-
-Lemma ea_f_no_eq : forall c, c <> 61 -> zin 61 (ea_f c) = false.
-Proof.
-  intros c H. unfold ea_f, c_amp, c_lt, c_gt, c_quot, c_cr, c_nl, c_tab. dz c; try reflexivity.
-  apply zin_single_neq. exact H.
-Qed.
-Theorem no_eq_ea_value_quiet : forall v, zin 61 v = false -> ea_value_quiet v = true.
-Proof.
-  intros v H. unfold ea_value_quiet. apply no_eq_quiet.
-  rewrite zin_utf8_encode by lia. rewrite escape_attrib_eq.
-  apply zin_flat_map_neq; [apply ea_f_no_eq | exact H].
 Qed.
 
 (* the line written by _dump_dependency(dep, 'Extends', out) *)
@@ -1862,7 +1699,7 @@ Lemma url_only_facts : forall extra, url_only extra = true ->
   forallb (fun kv => attr_name_ok (fst kv)) extra = true
   /\ forallb (fun kv => ascii (fst kv)) extra = true
   /\ flat_map rattr_sel (map e_rattr extra) = []
-  /\ (forallb (fun kv => ea_value_quiet (snd kv)) extra = true -> forallb e_attr_quiet extra = true).
+  /\ forallb (fun kv => negb (zin c_lt (fst kv))) extra = true.
 Proof.
   induction extra as [|kv l IH]; intro H.
   - repeat split; reflexivity.
@@ -1871,18 +1708,17 @@ Proof.
     repeat split.
     + simpl. rewrite Hk. rewrite H1. reflexivity.
     + simpl. rewrite Hk. rewrite H2. reflexivity.
-    + simpl. unfold rattr_sel at 1. simpl ra_name. rewrite Hk. simpl. exact H3.
-    + intro Hq. simpl in Hq. apply andb_true_iff in Hq. destruct Hq as [Hq1 Hq2].
-      simpl. rewrite (H4 Hq2). rewrite andb_true_r.
-      unfold e_attr_quiet. rewrite Hk. simpl. exact Hq1.
+    + cbn [map flat_map]. unfold rattr_sel at 1, attr_sel, rattr_token, e_rattr. cbn [ra_name fst].
+      rewrite Hk. simpl. exact H3.
+    + simpl. rewrite Hk. rewrite H4. reflexivity.
 Qed.
 
 Lemma utf8_spaces : forall n, utf8_encode (spaces n) = spaces n.
 Proof. intro n. apply utf8_encode_ascii. apply spaces_ascii. Qed.
+Lemma spaces_no_lt : forall n, zin c_lt (spaces n) = false.
+Proof. induction n as [|n IH]; [reflexivity | simpl; exact IH]. Qed.
 Lemma spaces_lt_free : forall n, lt_free (spaces n) = true.
-Proof.
-  intro n. apply no_lt_lt_free. induction n as [|n IH]; [reflexivity | simpl; exact IH].
-Qed.
+Proof. intro n. apply no_lt_lt_free. apply spaces_no_lt. Qed.
 
 Lemma utf8_dep_text_extends : forall id version extra, url_only extra = true ->
   utf8_encode (dep_text (s_ "Extends") (extends_attrs id version extra))
@@ -1905,39 +1741,38 @@ Lemma extends_item_ok : forall id version extra, url_only extra = true ->
 Proof.
   intros id version extra Hu. destruct (url_only_facts extra Hu) as [Hn _].
   unfold item_ok, item_rem, extends_item. cbn [it_pre it_post it_attrs it_trailer].
-  rewrite spaces_lt_free.
+  rewrite (lt_free_weak _ (spaces_lt_free 4)).
   rewrite e_rattrs_wf by (unfold extends_attrs; simpl; exact Hn).
   reflexivity.
 Qed.
 
 Lemma extends_item_info : forall id version extra, url_only extra = true ->
   scalars id = true -> scalars version = true ->
-  forallb (fun kv => ea_value_quiet (snd kv)) extra = true ->
   tag_info (item_rem (extends_item id version extra)) = Ok (mkInfo id version None None).
 Proof.
-  intros id version extra Hu Hid Hver Hq.
-  destruct (url_only_facts extra Hu) as [Hn [_ [Hsel Hquiet]]].
+  intros id version extra Hu Hid Hver.
+  destruct (url_only_facts extra Hu) as [Hn [_ [Hsel _]]].
   unfold tag_info, item_rem, extends_item. cbn [it_attrs it_trailer].
   rewrite attr_matches_rem_text.
   - unfold extends_attrs. rewrite map_app. rewrite flat_map_app. rewrite Hsel. rewrite app_nil_r.
-    simpl flat_map.
+    change (flat_map rattr_sel (map e_rattr [(s_ "id", id); (s_ "version", version)]))
+      with [(NId, utf8_encode (escape_attrib id)); (NVersion, utf8_encode (escape_attrib version))].
     rewrite (build_attrs_cons _ _ _ _ id (attr_value_escape_attrib id Hid)).
     rewrite (build_attrs_cons _ _ _ _ version (attr_value_escape_attrib version Hver)).
     reflexivity.
   - apply e_rattrs_wf. unfold extends_attrs. simpl. exact Hn.
-  - apply e_rattrs_quiet. unfold extends_attrs. simpl. apply Hquiet. exact Hq.
   - reflexivity.
 Qed.
 
-(* the spurious match again, this time through _escape_attrib (which leaves
-   apostrophes alone): a base lexicon whose url is  id='evil'  *)
-Example extends_spurious_witness :
+(* the old failure through _escape_attrib (which leaves apostrophes alone): a base
+   lexicon whose url is  id='evil'  — now scanned correctly *)
+Example extends_old_witness :
   tag_info (item_rem (extends_item (s_ "b") (s_ "2") [(s_ "url", s_ "id='evil'")]))
-  = Ok (mkInfo (s_ "evil") (s_ "2") None None).
+  = Ok (mkInfo (s_ "b") (s_ "2") None None).
 Proof. vm_compute. reflexivity. Qed.
 
 (* ====================================================================== *)
-(* lt_free is preserved by the UTF-8 encoding                             *)
+(* lt_freew is preserved by the UTF-8 encoding                            *)
 (* ====================================================================== *)
 Lemma utf8_enc1_head : forall c, 128 <= c -> exists h t, utf8_enc1 c = h :: t /\ 128 <= h.
 Proof.
@@ -1963,13 +1798,17 @@ Proof.
   - destruct (utf8_enc1_head y Ly) as [h [t [E Hh]]]. rewrite E. simpl.
     destruct (Z.eqb_spec x h) as [Exh|Exh]; [lia | reflexivity].
 Qed.
-Lemma not_lex_name_utf8 : forall b, not_lex_name b = true -> not_lex_name (utf8_encode b) = true.
+Lemma not_lex_namew_utf8 : forall b, not_lex_namew b = true -> not_lex_namew (utf8_encode b) = true.
 Proof.
-  intros b H. unfold not_lex_name in *. apply andb_true_iff in H. destruct H as [H1 H2].
+  intros b H. unfold not_lex_namew, not_section in *.
+  apply andb_true_iff in H. destruct H as [H H34]. apply andb_true_iff in H. destruct H as [H1 H2].
+  apply andb_true_iff in H34. destruct H34 as [H3 H4].
   rewrite (diverges_utf8 (s_ "Lexicon") b (eq_refl true) H1).
-  rewrite (diverges_utf8 (s_ "Extends") b (eq_refl true) H2). reflexivity.
+  rewrite (diverges_utf8 (s_ "Extends") b (eq_refl true) H2).
+  rewrite (diverges_utf8 (s_ "!--") b (eq_refl true) H3).
+  rewrite (diverges_utf8 (s_ "![CDATA[") b (eq_refl true) H4). reflexivity.
 Qed.
-Lemma lt_free_utf8 : forall s, lt_free s = true -> lt_free (utf8_encode s) = true.
+Lemma lt_freew_utf8 : forall s, lt_freew s = true -> lt_freew (utf8_encode s) = true.
 Proof.
   induction s as [|c s IH]; intro H.
   - reflexivity.
@@ -1977,11 +1816,13 @@ Proof.
     rewrite utf8_encode_cons.
     destruct (Z.eqb_spec c c_lt) as [E|E].
     + subst c. simpl in H1. change (utf8_enc1 c_lt) with [c_lt]. simpl.
-      rewrite (not_lex_name_utf8 s H1). simpl. apply IH. exact H2.
-    + apply lt_free_app; [|apply IH; exact H2].
-      apply no_lt_lt_free. rewrite zin_utf8_enc1 by (unfold c_lt; lia).
+      rewrite (not_lex_namew_utf8 s H1). simpl. apply IH. exact H2.
+    + apply lt_free_gen_app; [apply not_lex_namew_mono | | apply IH; exact H2].
+      apply lt_free_gen_no_lt. rewrite zin_utf8_enc1 by (unfold c_lt; lia).
       apply Z.eqb_neq. intro E'. apply E. symmetry. exact E'.
 Qed.
+Lemma lt_free_utf8w : forall s, lt_free s = true -> lt_freew (utf8_encode s) = true.
+Proof. intros s H. apply lt_freew_utf8. apply lt_free_weak. exact H. Qed.
 
 (* ====================================================================== *)
 (* S3  whole documents, generic form                                      *)
@@ -2007,7 +1848,7 @@ Definition ls_text (l : lexspec) : str :=
   s_ "  <" ++ lextype_name (ls_type l)
   ++ start_tag_rem (lextype_name (ls_type l)) (ls_attrib l) ++ [c_gt]
   ++ [c_nl] ++ ls_ext_text l ++ ls_body l.
-(* what load would say about it *)
+(* what the resource says about it *)
 Definition ls_info (l : lexspec) : info :=
   mkInfo (ls_id l) (ls_version l) (Some (ls_label l))
          (match ls_extends l with Some (i, v, _) => Some (i, v) | None => None end).
@@ -2018,16 +1859,12 @@ Definition ls_wf (l : lexspec) : Prop :=
   /\ Forall (fun kv => In (fst kv) extra_names) (ls_extra l)
   /\ match ls_extends l with Some (_, _, x) => url_only x = true | None => True end
   /\ lt_free (ls_body l) = true.
-(* the strings: encodable, and — for the attributes the scanner does not look for —
-   without anything that reads  id= / version= / label=  at a word boundary *)
-Definition ls_strings_ok (l : lexspec) : Prop :=
+(* the only thing asked of the strings: the five that the scan reports can be
+   encoded (no lone surrogates ...) — otherwise Python cannot write the file at all *)
+Definition ls_encodable (l : lexspec) : Prop :=
   scalars (ls_id l) = true /\ scalars (ls_label l) = true /\ scalars (ls_version l) = true
-  /\ value_quiet (ls_language l) = true /\ value_quiet (ls_email l) = true
-  /\ value_quiet (ls_license l) = true
-  /\ forallb (fun kv => value_quiet (snd kv)) (ls_extra l) = true
   /\ match ls_extends l with
      | Some (i, v, x) => scalars i = true /\ scalars v = true
-                         /\ forallb (fun kv => ea_value_quiet (snd kv)) x = true
      | None => True
      end.
 
@@ -2040,89 +1877,105 @@ Definition ls_matches (l : lexspec) : list (lextype * str) :=
      | None => []
      end.
 
-Lemma lex_matches_ls : forall l rest, ls_wf l -> ls_strings_ok l ->
-  lex_matches (utf8_encode (ls_text l ++ rest)) = ls_matches l ++ lex_matches (utf8_encode rest).
+Lemma lex_matches_ls : forall l rest, ls_wf l -> ls_encodable l ->
+  lex_matches (utf8_encode (ls_text l) ++ rest) = ls_matches l ++ lex_matches rest.
 Proof.
-  intros l rest [Ht [Hx [Hu Hb]]] [Hid [Hlab [Hver [Hq1 [Hq2 [Hq3 [Hqx He]]]]]]].
+  intros l rest [Ht [Hx [Hu Hb]]] [Hid [Hlab [Hver He]]].
   destruct (lexicon_start_tag_scanned (ls_type l) (ls_id l) (ls_label l) (ls_language l)
               (ls_email l) (ls_license l) (ls_version l) (ls_extra l)
-              ([c_nl] ++ ls_ext_text l ++ ls_body l ++ rest)
-              Hx Hid Hlab Hver Hq1 Hq2 Hq3 Hqx) as [Hlex _].
-  unfold ls_text. rewrite <- !app_assoc.
-  change (s_ "  <" ++ lextype_name (ls_type l) ++
+              (utf8_encode [c_nl] ++ utf8_encode (ls_ext_text l) ++ utf8_encode (ls_body l) ++ rest)
+              Hx Hid Hlab Hver) as [Hlex _].
+  cbv zeta in Hlex. rewrite utf8_encode_app in Hlex.
+  rewrite (utf8_encode_ascii (lextype_name (ls_type l))) in Hlex by (destruct (ls_type l); reflexivity).
+  rewrite <- app_assoc in Hlex.
+  unfold ls_text.
+  replace (s_ "  <" ++ lextype_name (ls_type l) ++
+           start_tag_rem (lextype_name (ls_type l)) (ls_attrib l) ++ [c_gt] ++ [c_nl] ++
+           ls_ext_text l ++ ls_body l)
+    with (s_ "  " ++ [c_lt] ++ lextype_name (ls_type l) ++
           start_tag_rem (lextype_name (ls_type l)) (ls_attrib l) ++ [c_gt] ++ [c_nl] ++
-          ls_ext_text l ++ ls_body l ++ rest)
-    with (s_ "  " ++ [c_lt] ++ (lextype_name (ls_type l) ++
-          start_tag_rem (lextype_name (ls_type l)) (ls_attrib l) ++ [c_gt] ++ [c_nl] ++
-          ls_ext_text l ++ ls_body l ++ rest)).
-  rewrite utf8_encode_app. rewrite (utf8_encode_app [c_lt]).
+          ls_ext_text l ++ ls_body l)
+    by reflexivity.
+  rewrite !utf8_encode_app.
   change (utf8_encode (s_ "  ")) with (s_ "  "). change (utf8_encode [c_lt]) with [c_lt].
-  rewrite lex_matches_skip by reflexivity.
+  change (utf8_encode [c_gt]) with [c_gt].
+  rewrite <- !app_assoc. rewrite lex_matches_skip by reflexivity.
   change ([c_lt] ++ ?x) with (c_lt :: x). rewrite lex_matches_cons.
   change (Z.eqb c_lt c_lt) with true. cbv iota.
-  unfold ls_attrib. rewrite Hlex. unfold ls_matches. fold (ls_attrib l). fold (ls_rem l).
+  rewrite (utf8_encode_ascii (lextype_name (ls_type l))) by (destruct (ls_type l); reflexivity).
+  rewrite skip_at_lextype.
+  change ([c_gt] ++ ?x) with (c_gt :: x).
+  unfold ls_attrib in *. rewrite Hlex. unfold ls_matches. fold (ls_attrib l). fold (ls_rem l).
   simpl app. f_equal.
-  rewrite utf8_encode_cons. change (utf8_enc1 c_nl) with [c_nl].
-  rewrite lex_matches_skip by reflexivity.
-  rewrite utf8_encode_app. unfold ls_ext_text.
+  rewrite lex_matches_cons. change (Z.eqb c_nl c_lt) with false. cbv iota.
+  unfold ls_ext_text.
   destruct (ls_extends l) as [[[i v] x]|].
   - rewrite (utf8_dep_text_extends i v x Hu).
     rewrite (lex_matches_item _ _ (extends_item_ok i v x Hu)).
-    simpl app. f_equal. rewrite utf8_encode_app.
-    apply lex_matches_skip. apply lt_free_utf8. exact Hb.
-  - simpl app. rewrite utf8_encode_app. apply lex_matches_skip. apply lt_free_utf8. exact Hb.
+    simpl app. f_equal.
+    apply lex_matches_skip. apply lt_free_utf8w. exact Hb.
+  - simpl app. apply lex_matches_skip. apply lt_free_utf8w. exact Hb.
 Qed.
 
-Lemma process_ls : forall l acc ms, ls_wf l -> ls_strings_ok l ->
+Lemma process_ls : forall l acc ms, ls_wf l -> ls_encodable l ->
   process acc (ls_matches l ++ ms) = process (ls_info l :: acc) ms.
 Proof.
-  intros l acc ms [Ht [Hx [Hu Hb]]] [Hid [Hlab [Hver [Hq1 [Hq2 [Hq3 [Hqx He]]]]]]].
+  intros l acc ms [Ht [Hx [Hu Hb]]] [Hid [Hlab [Hver He]]].
   destruct (lexicon_start_tag_scanned (ls_type l) (ls_id l) (ls_label l) (ls_language l)
               (ls_email l) (ls_license l) (ls_version l) (ls_extra l) []
-              Hx Hid Hlab Hver Hq1 Hq2 Hq3 Hqx) as [_ Hinfo].
+              Hx Hid Hlab Hver) as [_ [_ Hinfo]].
   unfold ls_matches. rewrite <- app_comm_cons.
   rewrite (process_lexicon acc (ls_type l) (ls_rem l) _ _ Hinfo)
     by (destruct Ht as [-> | ->]; discriminate).
   unfold ls_info.
   destruct (ls_extends l) as [[[i v] x]|].
-  - destruct He as [Hi [Hv Hqe]]. simpl app.
-    rewrite (process_extends _ acc _ ms _ (extends_item_info i v x Hu Hi Hv Hqe)).
+  - destruct He as [Hi Hv]. simpl app.
+    rewrite (process_extends _ acc _ ms _ (extends_item_info i v x Hu Hi Hv)).
     reflexivity.
   - reflexivity.
 Qed.
 
-Lemma lex_matches_specs : forall specs post,
-  Forall ls_wf specs -> Forall ls_strings_ok specs -> lt_free post = true ->
-  lex_matches (utf8_encode (concat (map ls_text specs) ++ post)) = flat_map ls_matches specs.
+Lemma utf8_encode_concat : forall l, utf8_encode (concat l) = concat (map utf8_encode l).
 Proof.
-  induction specs as [|l specs IH]; intros post Hw Hs Hp.
-  - simpl. apply lex_matches_lt_free. apply lt_free_utf8. exact Hp.
-  - inversion Hw as [|x y Hw1 Hw2]; subst. inversion Hs as [|x y Hs1 Hs2]; subst.
-    cbn [map concat]. rewrite <- app_assoc.
-    rewrite (lex_matches_ls l _ Hw1 Hs1). rewrite (IH post Hw2 Hs2 Hp). reflexivity.
+  induction l as [|x l IH]; [reflexivity|]. simpl. rewrite utf8_encode_app. rewrite IH. reflexivity.
 Qed.
-Lemma process_specs : forall specs acc,
-  Forall ls_wf specs -> Forall ls_strings_ok specs ->
-  process acc (flat_map ls_matches specs) = Ok (rev acc ++ map ls_info specs).
+
+Lemma lex_matches_specs : forall specs rest,
+  Forall ls_wf specs -> Forall ls_encodable specs ->
+  lex_matches (utf8_encode (concat (map ls_text specs)) ++ rest)
+  = flat_map ls_matches specs ++ lex_matches rest.
 Proof.
-  induction specs as [|l specs IH]; intros acc Hw Hs.
-  - simpl. rewrite app_nil_r. reflexivity.
+  induction specs as [|l specs IH]; intros rest Hw Hs.
+  - reflexivity.
   - inversion Hw as [|x y Hw1 Hw2]; subst. inversion Hs as [|x y Hs1 Hs2]; subst.
-    cbn [flat_map]. rewrite (process_ls l acc _ Hw1 Hs1). rewrite (IH _ Hw2 Hs2).
-    simpl. rewrite <- app_assoc. reflexivity.
+    cbn [map concat flat_map]. rewrite utf8_encode_app. rewrite <- !app_assoc.
+    rewrite (lex_matches_ls l _ Hw1 Hs1). rewrite (IH rest Hw2 Hs2). reflexivity.
+Qed.
+Lemma process_specs : forall specs acc ms,
+  Forall ls_wf specs -> Forall ls_encodable specs ->
+  process acc (flat_map ls_matches specs ++ ms) = process (rev (map ls_info specs) ++ acc) ms.
+Proof.
+  induction specs as [|l specs IH]; intros acc ms Hw Hs.
+  - reflexivity.
+  - inversion Hw as [|x y Hw1 Hw2]; subst. inversion Hs as [|x y Hs1 Hs2]; subst.
+    cbn [flat_map]. rewrite <- app_assoc. rewrite (process_ls l acc _ Hw1 Hs1).
+    rewrite (IH _ ms Hw2 Hs2). cbn [map rev]. rewrite <- app_assoc. reflexivity.
 Qed.
 
 (* S3, generic: a file made of lexicons of this shape is scanned to their
    id / version / label / base, in document order *)
 Theorem scan_document : forall pre specs post,
-  lt_free pre = true -> Forall ls_wf specs -> Forall ls_strings_ok specs -> lt_free post = true ->
+  lt_freew pre = true -> Forall ls_wf specs -> Forall ls_encodable specs -> lt_freew post = true ->
   scan_lexicons (utf8_encode (pre ++ concat (map ls_text specs) ++ post)) = Ok (map ls_info specs).
 Proof.
   intros pre specs post Hpre Hw Hs Hpost. unfold scan_lexicons.
-  rewrite utf8_encode_app. rewrite lex_matches_skip by (apply lt_free_utf8; exact Hpre).
-  rewrite (lex_matches_specs specs post Hw Hs Hpost).
-  rewrite (process_specs specs [] Hw Hs). reflexivity.
+  rewrite !utf8_encode_app. rewrite lex_matches_skip by (apply lt_freew_utf8; exact Hpre).
+  rewrite (lex_matches_specs specs _ Hw Hs).
+  rewrite (lex_matches_lt_free _ (lt_freew_utf8 _ Hpost)).
+  rewrite (process_specs specs [] [] Hw Hs). rewrite app_nil_r. simpl.
+  rewrite rev_involutive. reflexivity.
 Qed.
+
 
 (* ====================================================================== *)
 (* What the ElementTree serializer writes contains no tag for the scanner *)
@@ -2985,25 +2838,29 @@ Proof.
       repeat (split; [assumption|]). exists ext. repeat split; try assumption.
 Qed.
 
-(* S2 for the writer itself: the first line(s) of what _dump_lexicon writes *)
+(* S2 for the writer itself: the first line(s) of what _dump_lexicon writes are taken by
+   the lex scanner as one tag, tokenised into the written attributes, and give the id,
+   version and label of the lexicon — the only hypothesis: these three can be encoded *)
 Corollary dump_lexicon_start_tag : forall lexicon version text,
   _dump_lexicon lexicon version = Ok text ->
   exists l rest,
     spec_of version lexicon l
-    /\ text = s_ "  <" ++ lextype_name (ls_type l)
-              ++ start_tag_rem (lextype_name (ls_type l)) (ls_attrib l) ++ [c_gt] ++ rest
-    /\ (ls_strings_ok l ->
+    /\ text = s_ "  <" ++ (lextype_name (ls_type l)
+                           ++ start_tag_rem (lextype_name (ls_type l)) (ls_attrib l)) ++ [c_gt] ++ rest
+    /\ (scalars (ls_id l) = true -> scalars (ls_label l) = true -> scalars (ls_version l) = true ->
+        forall rest' : str,
         let R := utf8_encode (start_tag_rem (lextype_name (ls_type l)) (ls_attrib l)) in
         lex_at (utf8_encode (lextype_name (ls_type l)
-                             ++ start_tag_rem (lextype_name (ls_type l)) (ls_attrib l) ++ [c_gt] ++ rest))
-          = Some (ls_type l, R, utf8_encode rest)
+                             ++ start_tag_rem (lextype_name (ls_type l)) (ls_attrib l)) ++ c_gt :: rest')
+          = Some (ls_type l, R, rest')
+        /\ attr_tokens R = map q_token (ls_attrib l)
         /\ tag_info R = Ok (mkInfo (ls_id l) (ls_version l) (Some (ls_label l)) None)).
 Proof.
   intros lexicon version text H.
   destruct (dump_lexicon_inv _ _ _ H) as [l [Ht [[_ [Hx _]] Hs]]].
   exists l, ([c_nl] ++ ls_ext_text l ++ ls_body l). split; [exact Hs|]. split.
-  - rewrite Ht. unfold ls_text. reflexivity.
-  - intros [Hid [Hlab [Hver [Hq1 [Hq2 [Hq3 [Hqx _]]]]]]].
+  - rewrite Ht. unfold ls_text. rewrite <- !app_assoc. reflexivity.
+  - intros Hid Hlab Hver rest'.
     apply (lexicon_start_tag_scanned (ls_type l) (ls_id l) (ls_label l) (ls_language l)
              (ls_email l) (ls_license l) (ls_version l) (ls_extra l)); assumption.
 Qed.
@@ -3024,20 +2881,21 @@ Proof.
     split; constructor; assumption.
 Qed.
 
-(* S3 for dump: the file written for a resource is scanned to the id, version,
-   label and base of its lexicons, in the order of the resource — provided the
-   strings can be encoded and the attribute values the scanner does not look for
-   (language, email, license, url, citation, logo, metadata, the url of the base)
-   contain nothing that reads  id= / version= / label=  at a word boundary
-   (ls_strings_ok; a value without the character = always qualifies). *)
-Theorem scan_dump : forall version resource text,
+Definition dump_header (schema dc_uri : str) : str :=
+  xmldecl ++ [c_nl] ++ doctype_of schema ++ [c_nl]
+  ++ s_ "<LexicalResource xmlns:dc=""" ++ dc_uri ++ [c_quot; c_gt; c_nl].
+Definition dump_footer : str := s_ "</LexicalResource>" ++ [c_nl].
+
+(* the shape of what dump writes *)
+Lemma dump_inv : forall version resource text,
   dump version resource = Ok text ->
-  exists ver lexv lexicons specs,
-    version_info version = Ok ver
+  exists schema dc_uri ver lexv lexicons specs,
+    assoc version schemas = Some schema /\ assoc version dc_uris = Some dc_uri
+    /\ In version supported_versions
+    /\ version_info version = Ok ver
     /\ py_item resource (s_ "lexicons") = Ok lexv /\ py_iter lexv = Ok lexicons
-    /\ Forall2 (spec_of ver) lexicons specs
-    /\ (Forall ls_strings_ok specs ->
-        scan_lexicons (utf8_encode text) = Ok (map ls_info specs)).
+    /\ Forall ls_wf specs /\ Forall2 (spec_of ver) lexicons specs
+    /\ text = dump_header schema dc_uri ++ concat (map ls_text specs) ++ dump_footer.
 Proof.
   intros version resource text H. unfold dump in H.
   destruct (str_mem version supported_versions) eqn:Hs; cbv beta iota zeta delta [negb] in H;
@@ -3048,32 +2906,61 @@ Proof.
   apply bind_ok in H. destruct H as [lexv [Hlexv H]].
   apply bind_ok in H. destruct H as [lexicons [Hlexicons H]].
   apply bind_ok in H. destruct H as [parts [Hparts H]].
-  assert (Htext : text = (xmldecl ++ [c_nl] ++ doctype_of schema ++ [c_nl]
-                          ++ s_ "<LexicalResource xmlns:dc=""" ++ dc_uri ++ [c_quot; c_gt; c_nl])
-                         ++ concat parts ++ (s_ "</LexicalResource>" ++ [c_nl])).
-  { assert (Hinj : forall a b : str, @Ok str a = Ok b -> a = b) by (intros a b E; injection E as E; exact E).
-    apply Hinj in H. rewrite <- H. rewrite <- !app_assoc. reflexivity. }
-  clear H.
-  destruct (dump_lexicons_inv _ _ _ Hparts) as [specs [Hp [Hwf Hspec]]].
-  exists ver, lexv, lexicons, specs. repeat split; try assumption.
-  intro Hstr. subst parts.
-  assert (Hpre : lt_free (xmldecl ++ [c_nl] ++ doctype_of schema ++ [c_nl]
-                          ++ s_ "<LexicalResource xmlns:dc=""" ++ dc_uri ++ [c_quot; c_gt; c_nl]) = true).
-  { apply str_mem_In in Hs. simpl in Hs.
-    destruct Hs as [Hv|[Hv|[Hv|[Hv|[]]]]]; subst version;
-      vm_compute in Hsch; injection Hsch as <-; vm_compute in Hdc; injection Hdc as <-;
-      vm_compute; reflexivity. }
-  rewrite Htext.
-  apply scan_document; [exact Hpre | exact Hwf | exact Hstr | reflexivity].
+  destruct (dump_lexicons_inv _ _ _ Hparts) as [specs [Hp [Hwf Hspec]]]. subst parts.
+  exists schema, dc_uri, ver, lexv, lexicons, specs.
+  destruct (assoc version schemas) as [sc|]; [|discriminate]. injection Hsch as ->.
+  destruct (assoc version dc_uris) as [du|]; [|discriminate]. injection Hdc as ->.
+  apply str_mem_In in Hs.
+  repeat split; try assumption; try reflexivity.
+  assert (Hinj : forall a b : str, @Ok str a = Ok b -> a = b) by (intros a b E; injection E as E; exact E).
+  apply Hinj in H. rewrite <- H. unfold dump_header, dump_footer. rewrite <- !app_assoc. reflexivity.
 Qed.
 
-(* the same for a single lexicon, with the conclusion spelled out *)
+Lemma dump_header_cases : forall version schema dc_uri,
+  In version supported_versions ->
+  assoc version schemas = Some schema -> assoc version dc_uris = Some dc_uri ->
+  lt_freew (dump_header schema dc_uri) = true
+  /\ section_free (dump_header schema dc_uri) = true
+  /\ bang_free (xmldecl ++ [c_nl]) = true
+  /\ bang_free (s_ "<LexicalResource xmlns:dc=""" ++ dc_uri ++ [c_quot; c_gt; c_nl]) = true
+  /\ (exists d, doctype_of schema = c_lt :: 33 :: d /\ zin c_lt d = false).
+Proof.
+  intros version schema dc_uri Hs Hsch Hdc. simpl in Hs.
+  destruct Hs as [Hv|[Hv|[Hv|[Hv|[]]]]]; subst version;
+    vm_compute in Hsch; injection Hsch as <-; vm_compute in Hdc; injection Hdc as <-;
+    (split; [vm_compute; reflexivity|]; split; [vm_compute; reflexivity|];
+     split; [vm_compute; reflexivity|]; split; [vm_compute; reflexivity|];
+     eexists; split; [vm_compute; reflexivity | vm_compute; reflexivity]).
+Qed.
+
+(* S3 for dump: the file written for a resource is scanned to the id, version, label
+   and base of its lexicons, in the order of the resource.  What remains of the earlier
+   restriction: the strings the scan reports (id, label, version; id and version of the
+   base) must be encodable — nothing is asked of any other attribute value. *)
+Theorem scan_dump : forall version resource text,
+  dump version resource = Ok text ->
+  exists ver lexv lexicons specs,
+    version_info version = Ok ver
+    /\ py_item resource (s_ "lexicons") = Ok lexv /\ py_iter lexv = Ok lexicons
+    /\ Forall2 (spec_of ver) lexicons specs
+    /\ (Forall ls_encodable specs ->
+        scan_lexicons (utf8_encode text) = Ok (map ls_info specs)).
+Proof.
+  intros version resource text H.
+  destruct (dump_inv _ _ _ H)
+    as [schema [dc_uri [ver [lexv [lexicons [specs [Hsch [Hdc [Hs [Hver [Hl [Hi [Hwf [Hspec Ht]]]]]]]]]]]]]].
+  exists ver, lexv, lexicons, specs. repeat split; try assumption.
+  intro Henc. rewrite Ht.
+  destruct (dump_header_cases _ _ _ Hs Hsch Hdc) as [Hpre _].
+  apply scan_document; [exact Hpre | exact Hwf | exact Henc | reflexivity].
+Qed.
+
 Corollary scan_dump_single : forall version resource text,
   dump version resource = Ok text ->
   forall lexicon ver lexv, version_info version = Ok ver ->
   py_item resource (s_ "lexicons") = Ok lexv -> py_iter lexv = Ok [lexicon] ->
   exists l, spec_of ver lexicon l
-            /\ (ls_strings_ok l -> scan_lexicons (utf8_encode text) = Ok [ls_info l]).
+            /\ (ls_encodable l -> scan_lexicons (utf8_encode text) = Ok [ls_info l]).
 Proof.
   intros version resource text H lexicon ver lexv Hver Hlexv Hiter.
   destruct (scan_dump _ _ _ H) as [ver' [lexv' [lexicons [specs [Hv [Hl [Hi [Hsp Hscan]]]]]]]].
@@ -3084,20 +2971,298 @@ Proof.
 Qed.
 
 (* ====================================================================== *)
-(* Concrete checks (the theorems are not vacuous; the witnesses)          *)
+(* The dumped text contains no comment and no CDATA section               *)
+(* ====================================================================== *)
+Lemma namebytes_no_lt : forall nm, forallb is_namebyte nm = true -> zin c_lt nm = false.
+Proof.
+  induction nm as [|c nm IH]; intro H; [reflexivity|].
+  simpl in H. apply andb_true_iff in H. destruct H as [Hc Hn].
+  rewrite zin_cons. rewrite (IH Hn). rewrite orb_false_r.
+  unfold is_namebyte in Hc. apply negb_true_iff in Hc.
+  apply orb_false_iff in Hc. destruct Hc as [Hc _]. apply orb_false_iff in Hc. destruct Hc as [Hc _].
+  apply orb_false_iff in Hc. destruct Hc as [Hc _]. apply orb_false_iff in Hc. destruct Hc as [_ Hc].
+  rewrite Z.eqb_sym. exact Hc.
+Qed.
+Lemma quoteattr_no_lt : forall v, zin c_lt (quoteattr v) = false.
+Proof.
+  intro v. destruct (quoteattr_shape v) as [Hq [_ Hqq]]. rewrite Hq.
+  rewrite !zin_app.
+  assert (Hi : zin c_lt (quoteattr_inner v) = false).
+  { unfold quoteattr_inner. cbv zeta.
+    destruct (zin c_quot (flat_map sax_f v) && zin c_apos (flat_map sax_f v)).
+    - apply zin_flat_map. intro c. apply saxq_f_no_cr_lt_quot.
+    - apply zin_flat_map. intro c. apply sax_f_no_cr_lt. }
+  rewrite Hi. destruct (is_quote_cases _ Hqq) as [-> | ->]; reflexivity.
+Qed.
+Lemma zin_join : forall x d (l : list str), zin x d = false ->
+  forallb (fun p => negb (zin x p)) l = true -> zin x (join d l) = false.
+Proof.
+  intros x d l Hd. induction l as [|p l IH]; intro H; [reflexivity|].
+  simpl in H. apply andb_true_iff in H. destruct H as [Hp Hl]. apply negb_true_iff in Hp.
+  destruct l as [|p2 l]; [exact Hp|].
+  rewrite join_cons2. rewrite !zin_app. rewrite Hp, Hd. apply IH. exact Hl.
+Qed.
+Lemma start_tag_rem_no_lt : forall name attrib,
+  forallb (fun kv => attr_name_ok (fst kv)) attrib = true ->
+  zin c_lt (start_tag_rem name attrib) = false.
+Proof.
+  intros name attrib H. unfold start_tag_rem. rewrite zin_app.
+  change (zin c_lt [c_sp]) with false. cbn [orb].
+  apply zin_join.
+  - rewrite zin_cons. change (Z.eqb c_lt c_nl) with false. apply spaces_no_lt.
+  - rewrite forallb_forall in *. intros p Hp. apply in_map_iff in Hp. destruct Hp as [kv [<- Hkv]].
+    apply negb_true_iff. unfold q_part. rewrite !zin_app.
+    specialize (H kv Hkv). apply attr_name_ok_inv in H. destruct H as [_ [_ H]].
+    rewrite (namebytes_no_lt _ H). rewrite quoteattr_no_lt. reflexivity.
+Qed.
+Lemma e_parts_no_lt : forall l, forallb (fun kv => negb (zin c_lt (fst kv))) l = true ->
+  zin c_lt (concat (map e_part l)) = false.
+Proof.
+  induction l as [|kv l IH]; intro H; [reflexivity|].
+  simpl in H. apply andb_true_iff in H. destruct H as [Hk Hl]. apply negb_true_iff in Hk.
+  cbn [map concat]. rewrite zin_app. rewrite (IH Hl). rewrite orb_false_r.
+  unfold e_part. rewrite !zin_app. rewrite Hk.
+  destruct (escape_attrib_wellformed (snd kv)) as [_ Hlt]. rewrite Hlt. reflexivity.
+Qed.
+
+Lemma bang_free_app : forall a b, bang_free a = true -> bang_free b = true -> bang_free (a ++ b) = true.
+Proof. intros a b. apply lt_free_gen_app. apply nobang_mono. Qed.
+
+Lemma ls_text_bang_free : forall l, ls_wf l -> bang_free (ls_text l) = true.
+Proof.
+  intros l [Ht [Hx [Hu Hb]]]. unfold ls_text.
+  assert (Hnames : forallb (fun kv => attr_name_ok (fst kv)) (ls_attrib l) = true).
+  { unfold ls_attrib, lexicon_attrib. rewrite forallb_app. apply andb_true_iff. split; [reflexivity|].
+    rewrite forallb_forall. intros kv Hkv. rewrite Forall_forall in Hx.
+    apply (extra_name_facts _ (Hx kv Hkv)). }
+  change (s_ "  <") with (s_ "  " ++ [c_lt]). rewrite <- app_assoc.
+  apply bang_free_app; [reflexivity|].
+  change ([c_lt] ++ ?x) with (c_lt :: x).
+  change (bang_free (c_lt :: ?x)) with (nobang x && bang_free x).
+  apply andb_true_iff. split; [destruct Ht as [-> | ->]; reflexivity|].
+  apply bang_free_app; [apply lt_free_gen_no_lt; destruct Ht as [-> | ->]; reflexivity|].
+  apply bang_free_app; [apply lt_free_gen_no_lt; apply start_tag_rem_no_lt; exact Hnames|].
+  apply bang_free_app; [reflexivity|]. apply bang_free_app; [reflexivity|].
+  apply bang_free_app; [|apply lt_free_bang_free; exact Hb].
+  unfold ls_ext_text. destruct (ls_extends l) as [[[i v] x]|]; [|reflexivity].
+  unfold dep_text. apply bang_free_app; [apply lt_free_gen_no_lt; apply spaces_no_lt|].
+  change ([c_lt] ++ ?x) with (c_lt :: x).
+  change (bang_free (c_lt :: ?x)) with (nobang x && bang_free x).
+  apply andb_true_iff. split; [reflexivity|].
+  apply lt_free_gen_no_lt. rewrite !zin_app.
+  destruct (url_only_facts x Hu) as [_ [_ [_ Hk]]].
+  rewrite e_parts_no_lt by (unfold extends_attrs; simpl; exact Hk). reflexivity.
+Qed.
+
+(* apart from the DOCTYPE declaration (which is neither a comment nor a CDATA section) no
+   "less than" sign of the dumped text is followed by an exclamation mark; so the first
+   two alternatives of lex_re never fire on it *)
+Theorem dump_no_sections : forall version resource text,
+  dump version resource = Ok text ->
+  (exists schema d rest,
+     text = xmldecl ++ [c_nl] ++ (c_lt :: 33 :: d) ++ [c_nl] ++ rest
+     /\ doctype_of schema = c_lt :: 33 :: d /\ zin c_lt d = false
+     /\ bang_free (xmldecl ++ [c_nl]) = true /\ bang_free rest = true)
+  /\ section_free text = true.
+Proof.
+  intros version resource text H.
+  destruct (dump_inv _ _ _ H)
+    as [schema [dc_uri [ver [lexv [lexicons [specs [Hsch [Hdc [Hs [Hver [Hl [Hi [Hwf [Hspec Ht]]]]]]]]]]]]]].
+  destruct (dump_header_cases _ _ _ Hs Hsch Hdc) as [_ [Hsec [Hb1 [Hb2 [d [Hd1 Hd2]]]]]].
+  assert (Hparts : bang_free (concat (map ls_text specs)) = true).
+  { apply lt_free_gen_concat; [apply nobang_mono|]. clear - Hwf.
+    induction specs as [|l specs IH]; [reflexivity|].
+    inversion Hwf as [|x y H1 H2]; subst. cbn [map forallb]. rewrite (ls_text_bang_free l H1). apply IH. exact H2. }
+  assert (Hrest : bang_free ((s_ "<LexicalResource xmlns:dc=""" ++ dc_uri ++ [c_quot; c_gt; c_nl])
+                             ++ concat (map ls_text specs) ++ dump_footer) = true).
+  { apply bang_free_app; [exact Hb2|]. apply bang_free_app; [exact Hparts | reflexivity]. }
+  split.
+  - exists schema, d, ((s_ "<LexicalResource xmlns:dc=""" ++ dc_uri ++ [c_quot; c_gt; c_nl])
+                       ++ concat (map ls_text specs) ++ dump_footer).
+    repeat split; try assumption.
+    rewrite Ht. unfold dump_header. rewrite Hd1. rewrite <- !app_assoc. reflexivity.
+  - rewrite Ht. apply lt_free_gen_app; [apply not_section_mono | exact Hsec|].
+    apply lt_free_gen_app; [apply not_section_mono | |reflexivity].
+    apply (lt_free_gen_impl nobang not_section _ nobang_not_section). exact Hparts.
+Qed.
+Corollary dump_never_skips : forall version resource text,
+  dump version resource = Ok text ->
+  forall a b, text = a ++ c_lt :: b -> skip_at b = None.
+Proof.
+  intros version resource text H a b E.
+  destruct (dump_no_sections _ _ _ H) as [_ Hs].
+  apply (section_free_never_skips text a b Hs E).
+Qed.
+
+(* ====================================================================== *)
+(* S5  comments and CDATA sections contribute nothing                     *)
+(* ====================================================================== *)
+(* [pre] is a complete sequence of matches and non-matches: no tag, comment or CDATA
+   section that begins in [pre] is still open at its end *)
+Definition lex_closed (pre : str) : Prop :=
+  forall s, lex_matches (pre ++ s) = lex_matches pre ++ lex_matches s.
+
+Lemma lex_closed_nil : lex_closed [].
+Proof. intro s. reflexivity. Qed.
+Lemma lex_closed_app : forall a b, lex_closed a -> lex_closed b -> lex_closed (a ++ b).
+Proof.
+  intros a b Ha Hb s. rewrite <- app_assoc. rewrite Ha. rewrite Hb. rewrite Ha.
+  rewrite app_assoc. reflexivity.
+Qed.
+Lemma lex_closed_lt_freew : forall pre, lt_freew pre = true -> lex_closed pre.
+Proof.
+  intros pre H s. rewrite (lex_matches_skip pre s H). rewrite (lex_matches_lt_free pre H). reflexivity.
+Qed.
+Lemma lex_closed_item : forall it, item_ok it = true -> lex_closed (item_text it).
+Proof.
+  intros it H s. rewrite (lex_matches_item it s H).
+  rewrite <- (app_nil_r (item_text it)). rewrite (lex_matches_item it [] H). reflexivity.
+Qed.
+Lemma lex_closed_specs : forall specs, Forall ls_wf specs -> Forall ls_encodable specs ->
+  lex_closed (utf8_encode (concat (map ls_text specs))).
+Proof.
+  intros specs Hw Hs s. rewrite (lex_matches_specs specs s Hw Hs).
+  rewrite <- (app_nil_r (utf8_encode (concat (map ls_text specs)))).
+  rewrite (lex_matches_specs specs [] Hw Hs). rewrite app_nil_r. reflexivity.
+Qed.
+
+(* the first occurrence of a closing sequence  a a g  (a <> g) after a text that does
+   not contain it is the one that was appended *)
+Lemma find_after_first : forall a g c post, a <> g -> substrb [a; a; g] c = false ->
+  find_after [a; a; g] (c ++ [a; a; g] ++ post) = Some post.
+Proof.
+  intros a g c post Hag. induction c as [|x c IH]; intro H.
+  - cbn [app find_after]. cbn [prefixb]. rewrite !Z.eqb_refl. reflexivity.
+  - cbn [substrb] in H. apply orb_false_iff in H. destruct H as [Hp Hs].
+    rewrite <- app_comm_cons. cbn [find_after].
+    assert (Hpre : prefixb [a; a; g] (x :: c ++ [a; a; g] ++ post) = false).
+    { assert (Hga : Z.eqb g a = false).
+      { apply Z.eqb_neq. intro E. apply Hag. symmetry. exact E. }
+      destruct c as [|y [|z r]].
+      - cbn [app prefixb]. rewrite Hga. rewrite !andb_false_r. reflexivity.
+      - cbn [app prefixb]. rewrite Hga. rewrite !andb_false_r. reflexivity.
+      - cbn [app prefixb] in *. rewrite andb_true_r in *. exact Hp. }
+    rewrite Hpre. apply IH. exact Hs.
+Qed.
+
+Lemma skip_at_comment : forall c post, substrb (s_ "-->") c = false ->
+  skip_at (s_ "!--" ++ c ++ s_ "-->" ++ post) = Some post.
+Proof.
+  intros c post H. unfold skip_at, section_at.
+  change (prefixb (s_ "!--") (s_ "!--" ++ c ++ s_ "-->" ++ post)) with true. cbv iota.
+  change (skipn (length (s_ "!--")) (s_ "!--" ++ c ++ s_ "-->" ++ post)) with (c ++ s_ "-->" ++ post).
+  change (s_ "-->") with [45; 45; 62] in *.
+  rewrite (find_after_first 45 62 c post) by (try discriminate; exact H). reflexivity.
+Qed.
+Lemma skip_at_cdata : forall c post, substrb (s_ "]]>") c = false ->
+  skip_at (s_ "![CDATA[" ++ c ++ s_ "]]>" ++ post) = Some post.
+Proof.
+  intros c post H. unfold skip_at, section_at.
+  change (prefixb (s_ "!--") (s_ "![CDATA[" ++ c ++ s_ "]]>" ++ post)) with false. cbv iota.
+  change (prefixb (s_ "![CDATA[") (s_ "![CDATA[" ++ c ++ s_ "]]>" ++ post)) with true. cbv iota.
+  change (skipn (length (s_ "![CDATA[")) (s_ "![CDATA[" ++ c ++ s_ "]]>" ++ post))
+    with (c ++ s_ "]]>" ++ post).
+  change (s_ "]]>") with [93; 93; 62] in *.
+  rewrite (find_after_first 93 62 c post) by (try discriminate; exact H). reflexivity.
+Qed.
+
+(* a comment / a CDATA section is itself a closed text without matches *)
+Lemma lex_matches_comment : forall c post, substrb (s_ "-->") c = false ->
+  lex_matches (s_ "<!--" ++ c ++ s_ "-->" ++ post) = lex_matches post.
+Proof.
+  intros c post H. change (s_ "<!--" ++ c ++ s_ "-->" ++ post)
+    with (c_lt :: (s_ "!--" ++ c ++ s_ "-->" ++ post)).
+  rewrite lex_matches_cons. change (Z.eqb c_lt c_lt) with true. cbv iota.
+  rewrite (skip_at_comment c post H). reflexivity.
+Qed.
+Lemma lex_matches_cdata : forall c post, substrb (s_ "]]>") c = false ->
+  lex_matches (s_ "<![CDATA[" ++ c ++ s_ "]]>" ++ post) = lex_matches post.
+Proof.
+  intros c post H. change (s_ "<![CDATA[" ++ c ++ s_ "]]>" ++ post)
+    with (c_lt :: (s_ "![CDATA[" ++ c ++ s_ "]]>" ++ post)).
+  rewrite lex_matches_cons. change (Z.eqb c_lt c_lt) with true. cbv iota.
+  rewrite (skip_at_cdata c post H). reflexivity.
+Qed.
+
+(* S5: whatever a comment contains (tags, quotes, other openings, invalid bytes) *)
+Theorem comment_skipped : forall pre c post,
+  lex_closed pre -> substrb (s_ "-->") c = false ->
+  lex_matches (pre ++ s_ "<!--" ++ c ++ s_ "-->" ++ post) = lex_matches (pre ++ post)
+  /\ scan_lexicons (pre ++ s_ "<!--" ++ c ++ s_ "-->" ++ post) = scan_lexicons (pre ++ post).
+Proof.
+  intros pre c post Hpre Hc.
+  assert (Hm : lex_matches (pre ++ s_ "<!--" ++ c ++ s_ "-->" ++ post) = lex_matches (pre ++ post)).
+  { rewrite Hpre. rewrite (lex_matches_comment c post Hc). rewrite <- Hpre. reflexivity. }
+  split; [exact Hm|]. unfold scan_lexicons. rewrite Hm. reflexivity.
+Qed.
+Theorem cdata_skipped : forall pre c post,
+  lex_closed pre -> substrb (s_ "]]>") c = false ->
+  lex_matches (pre ++ s_ "<![CDATA[" ++ c ++ s_ "]]>" ++ post) = lex_matches (pre ++ post)
+  /\ scan_lexicons (pre ++ s_ "<![CDATA[" ++ c ++ s_ "]]>" ++ post) = scan_lexicons (pre ++ post).
+Proof.
+  intros pre c post Hpre Hc.
+  assert (Hm : lex_matches (pre ++ s_ "<![CDATA[" ++ c ++ s_ "]]>" ++ post) = lex_matches (pre ++ post)).
+  { rewrite Hpre. rewrite (lex_matches_cdata c post Hc). rewrite <- Hpre. reflexivity. }
+  split; [exact Hm|]. unfold scan_lexicons. rewrite Hm. reflexivity.
+Qed.
+
+(* the side condition is needed: a comment opening inside an open quote of a tag, or
+   after an unterminated comment opening, is not a comment for the scanner *)
+Example comment_not_skipped_witness :
+  let pre := s_ "<Lexicon id=""a"" version=""1"" note=""" in
+  let c := s_ """><Lexicon id=""c"" version=""3"" note=""" in
+  let post := s_ """>" in
+  substrb (s_ "-->") c = false
+  /\ scan_lexicons (pre ++ s_ "<!--" ++ c ++ s_ "-->" ++ post)
+     = Ok [mkInfo (s_ "a") (s_ "1") None None; mkInfo (s_ "c") (s_ "3") None None]
+  /\ scan_lexicons (pre ++ post) = Ok [mkInfo (s_ "a") (s_ "1") None None].
+Proof. vm_compute. repeat split; reflexivity. Qed.
+Example comment_not_skipped_witness2 :
+  let pre := s_ "<!-- " in
+  let post := s_ "<Lexicon id=""a"" version=""1""> -->" in
+  scan_lexicons (pre ++ s_ "<!--" ++ s_ " x " ++ s_ "-->" ++ post) = Ok [mkInfo (s_ "a") (s_ "1") None None]
+  /\ scan_lexicons (pre ++ post) = Ok [].
+Proof. vm_compute. split; reflexivity. Qed.
+
+(* S5 for documents: a comment between two lexicons of a document (for instance a dumped
+   one) changes nothing, whatever it contains *)
+Theorem scan_document_with_comment : forall pre specs1 c specs2 post,
+  lt_freew pre = true -> Forall ls_wf specs1 -> Forall ls_encodable specs1 ->
+  Forall ls_wf specs2 -> Forall ls_encodable specs2 -> lt_freew post = true ->
+  substrb (s_ "-->") c = false ->
+  scan_lexicons (utf8_encode (pre ++ concat (map ls_text specs1))
+                 ++ s_ "<!--" ++ c ++ s_ "-->"
+                 ++ utf8_encode (concat (map ls_text specs2) ++ post))
+  = Ok (map ls_info (specs1 ++ specs2)).
+Proof.
+  intros pre specs1 c specs2 post Hpre Hw1 Hs1 Hw2 Hs2 Hpost Hc.
+  assert (Hclosed : lex_closed (utf8_encode (pre ++ concat (map ls_text specs1)))).
+  { rewrite utf8_encode_app. apply lex_closed_app.
+    - apply lex_closed_lt_freew. apply lt_freew_utf8. exact Hpre.
+    - apply lex_closed_specs; assumption. }
+  destruct (comment_skipped _ c (utf8_encode (concat (map ls_text specs2) ++ post)) Hclosed Hc)
+    as [_ Hscan].
+  rewrite Hscan. rewrite <- utf8_encode_app. rewrite <- app_assoc.
+  rewrite (app_assoc (concat (map ls_text specs1))). rewrite <- concat_app. rewrite <- map_app.
+  apply scan_document; try assumption; apply Forall_app; split; assumption.
+Qed.
+
+(* ====================================================================== *)
+(* Concrete checks (the theorems are not vacuous; the former witnesses)   *)
 (* ====================================================================== *)
 Definition ex_lexicon (id label url : string) (extends : val) : val :=
   VDict [(s_ "id", VStr (s_ id)); (s_ "label", VStr (s_ label)); (s_ "language", VStr (s_ "en"));
          (s_ "email", VStr (s_ "a@b.c")); (s_ "license", VStr (s_ "CC0")); (s_ "version", VStr (s_ "1.0"));
          (s_ "url", VStr (s_ url)); (s_ "extends", extends);
-         (s_ "meta", VDict [(s_ "note", VStr (s_ "a <note> & more"))])].
+         (s_ "meta", VDict [(s_ "note", VStr (s_ "<Extends id=""n"" version=""0""> <!-- & more"))])].
 Definition ex_resource : val :=
   VDict [(s_ "lexicons",
-          VList [ex_lexicon "base" "it's ""quoted"" > <Lexicon id='x' version='9'>" "http://x.org/?q" VNone;
+          VList [ex_lexicon "base" "it's ""quoted"" > <Lexicon id='x' version='9'>" "see version=""2"" there" VNone;
                  ex_lexicon "ext" "Extension" ""
                             (VDict [(s_ "id", VStr (s_ "base")); (s_ "version", VStr (s_ "1.0"));
-                                    (s_ "url", VStr (s_ "http://x.org"))])])].
-(* dump, then scan: id, version, label, base — also with quotes, brackets and a tag inside the label *)
+                                    (s_ "url", VStr (s_ "id='evil'"))])])].
+(* dump, then scan: id, version, label, base — with quotes, brackets, tags, id=-like text
+   and a comment opening inside the values *)
 Example scan_dump_example :
   match dump (s_ "1.1") ex_resource with
   | Ok text => scan_lexicons (utf8_encode text)
@@ -3107,24 +3272,22 @@ Example scan_dump_example :
         mkInfo (s_ "ext") (s_ "1.0") (Some (s_ "Extension")) (Some (s_ "base", s_ "1.0"))].
 Proof. vm_compute. reflexivity. Qed.
 
-(* the same resource with the url  version="evil" : the scan differs from the resource *)
-Example scan_dump_witness :
+(* the witness of the first report (url  version="evil" ) *)
+Example scan_dump_old_witness :
   match dump (s_ "1.1")
              (VDict [(s_ "lexicons", VList [ex_lexicon "base" "Base" "version=""evil""" VNone])]) with
   | Ok text => scan_lexicons (utf8_encode text)
   | Err e => Err e
   end
-  = Ok [mkInfo (s_ "base") (s_ "evil") (Some (s_ "Base")) None].
+  = Ok [mkInfo (s_ "base") (s_ "1.0") (Some (s_ "Base")) None].
 Proof. vm_compute. reflexivity. Qed.
 
-(* attribute names: a hypothetical  xml:id  or  my-version  would be taken for id / version
-   (the colon and the hyphen are word boundaries); none of the names the writer uses is
-   of that kind (lexicon_names_ok) *)
-Example name_boundary_witness :
-  attr_matches (s_ " id=""a"" xml:id=""b"" xid=""c"" my-version=""2"" dc:identifier=""d""")
-  = [(NId, s_ "a"); (NId, s_ "b"); (NVersion, s_ "2")]
-  /\ tails_ok false (s_ "xml:id") = false /\ tails_ok false (s_ "dc:identifier") = true.
-Proof. vm_compute. repeat split; reflexivity. Qed.
+(* attribute names: whole names are compared, so  xml:id ,  my-version ,  xid  are not
+   taken for id / version any more *)
+Example name_boundary_example :
+  attr_matches (s_ " id=""a"" xml:id=""b"" xid=""c"" my-version=""2"" dc:identifier=""d"" version='1'")
+  = [(NId, s_ "a"); (NVersion, s_ "1")].
+Proof. vm_compute. reflexivity. Qed.
 
 (* ====================================================================== *)
 (* Summary                                                                *)
@@ -3134,21 +3297,22 @@ Proof. vm_compute. repeat split; reflexivity. Qed.
        output of the escapers); they differ on arbitrary input: unescape_differs_nul,
        unescape_differs_big.  Bytes: utf8_roundtrip (scalar values; xml_chars_scalars),
        attr_value_quoteattr, attr_value_escape_attrib.
-   S2  start_tag_scanned (any attribute list), lexicon_start_tag_scanned (the dictionary of
-       _build_lexicon_attrib), lexicon_names_ok.  FALSE as asked: a spurious match can start
-       inside the quoted value of an attribute the scanner does not look for
-       (start_tag_spurious_witness, start_tag_spurious_witness2, extends_spurious_witness,
-       scan_dump_witness); inside the values of id / version / label it cannot (no
-       hypothesis on them: the whole attribute is consumed by its own match).
-       Hypothesis added: value_quiet / ea_value_quiet; no_eq_value_quiet,
-       no_eq_ea_value_quiet: a value without "=" qualifies.
-       For the writer: dump_lexicon_start_tag.
-   S3  scan_document (generic), dump_lexicon_inv, scan_dump, scan_dump_single; the lemma
-       about the rest of the file: serialize_lt_free, print_elem_lt_free,
-       dump_lexical_entry_lt_free, dump_synset_lt_free, dump_sb_lt_free, dump_requires_lt_free.
+   S2  attr_tokens_rem_text (the remainder is tokenised into exactly the written
+       attributes), start_tag_scanned (any attribute list, NO hypothesis on the values),
+       lexicon_start_tag_scanned, lexicon_names_ok, dump_lexicon_start_tag.  The inputs on
+       which the earlier source tree failed: start_tag_old_witness, start_tag_old_witness2,
+       extends_old_witness, scan_dump_old_witness, name_boundary_example.
+   S3  scan_document (generic), dump_lexicon_inv, dump_inv, scan_dump, scan_dump_single.
+       Remaining hypothesis: ls_encodable (the reported strings are Unicode scalar values).
+       The rest of the file: serialize_lt_free, print_elem_lt_free,
+       dump_lexical_entry_lt_free, dump_synset_lt_free, dump_sb_lt_free, dump_requires_lt_free;
+       no comment / CDATA section in dumped text: dump_no_sections, dump_never_skips.
    S4  tag_info_missing, tag_info_missing_keyerror, tag_info_never_lmferror,
        scan_missing_id_or_version, scan_first_missing_keyerror, scan_extends_first,
-       scan_extends_first_any. *)
+       scan_extends_first_any.
+   S5  comment_skipped, cdata_skipped (side condition lex_closed: lex_closed_nil,
+       lex_closed_app, lex_closed_lt_freew, lex_closed_item, lex_closed_specs; needed:
+       comment_not_skipped_witness, comment_not_skipped_witness2), scan_document_with_comment. *)
 
 Print Assumptions unescape_quoteattr.
 Print Assumptions unescape_quoteattr_unquote.
@@ -3158,24 +3322,28 @@ Print Assumptions unescape_agrees_escape_attrib.
 Print Assumptions utf8_roundtrip.
 Print Assumptions attr_value_quoteattr.
 Print Assumptions attr_value_escape_attrib.
+Print Assumptions attr_tokens_rem_text.
 Print Assumptions start_tag_scanned.
 Print Assumptions lexicon_start_tag_scanned.
 Print Assumptions lexicon_names_ok.
-Print Assumptions no_eq_value_quiet.
-Print Assumptions no_eq_ea_value_quiet.
-Print Assumptions start_tag_spurious_witness.
-Print Assumptions extends_spurious_witness.
+Print Assumptions start_tag_old_witness.
+Print Assumptions start_tag_old_witness2.
+Print Assumptions extends_old_witness.
+Print Assumptions dump_lexicon_start_tag.
 Print Assumptions serialize_lt_free.
 Print Assumptions print_elem_lt_free.
 Print Assumptions dump_lexical_entry_lt_free.
 Print Assumptions dump_synset_lt_free.
 Print Assumptions scan_document.
 Print Assumptions dump_lexicon_inv.
-Print Assumptions dump_lexicon_start_tag.
+Print Assumptions dump_inv.
 Print Assumptions scan_dump.
 Print Assumptions scan_dump_single.
 Print Assumptions scan_dump_example.
-Print Assumptions scan_dump_witness.
+Print Assumptions scan_dump_old_witness.
+Print Assumptions name_boundary_example.
+Print Assumptions dump_no_sections.
+Print Assumptions dump_never_skips.
 Print Assumptions tag_info_missing.
 Print Assumptions tag_info_missing_keyerror.
 Print Assumptions tag_info_never_lmferror.
@@ -3183,3 +3351,8 @@ Print Assumptions scan_missing_id_or_version.
 Print Assumptions scan_first_missing_keyerror.
 Print Assumptions scan_extends_first.
 Print Assumptions scan_extends_first_any.
+Print Assumptions comment_skipped.
+Print Assumptions cdata_skipped.
+Print Assumptions comment_not_skipped_witness.
+Print Assumptions comment_not_skipped_witness2.
+Print Assumptions scan_document_with_comment.
